@@ -1,6 +1,1992 @@
 import RecipeGrid.Model.Parser
+import RecipeGrid.Lemmas.Parser
+/-! C06: the parser model is total, and everything that can be written is recovered verbatim.
+
+    The round-trip statements all have the shape
+    `rule (pre ++ print x ++ rest).toArray ⟨pre.length, z⟩ = some (x', ⟨(pre ++ print x).length, z⟩)`:
+    wherever the printed text `print x` stands (after any `pre`), and whatever the flag `z`, the rule
+    consumes exactly `print x` and returns the expected fragment `x'` (offsets are absolute, so they
+    are shifted by `pre.length`), provided `rest` satisfies the *follow condition* of the rule.
+    The printers below are the specification of the permitted spellings; they do not mention the parser. -/
 namespace RG.C06
+open RG.Parser
+
 /-- the parser model is total: it returns one of the three outcomes for every text -/
 theorem parse_total (s : Str) : (∃ stmts, parse s = .ok stmts) ∨ parse s = .syntaxError := by
   unfold parse; split <;> simp
+
+/-! ## Follow conditions -/
+
+/-- the next character (if any) is not in the class `p` -/
+def NextNot (p : Char → Bool) (rest : Str) : Prop := ∀ c, rest.head? = some c → p c = false
+
+/-! ## Layer 1: lexical -/
+
+/-- a non-empty run of ASCII digits (leading zeros allowed) -/
+def IsDigits (ds : Str) : Prop := ds ≠ [] ∧ ∀ c ∈ ds, isDigit c = true
+/-- a possibly empty run of blanks `[ \t]` -/
+def IsBlanks (s : Str) : Prop := ∀ c ∈ s, isHsp c = true
+/-- a possibly empty run of `\s` characters -/
+def IsSpaces (s : Str) : Prop := ∀ c ∈ s, isReSpace c = true
+
+/-- `digits` recovers every digit run that is followed by a non-digit (or the end of the text) -/
+theorem digits_roundtrip (pre ds rest : Str) (z : Bool) (hd : IsDigits ds) (hr : NextNot isDigit rest) :
+    digits (pre ++ ds ++ rest).toArray ⟨pre.length, z⟩ = some (ds, ⟨(pre ++ ds).length, z⟩) := by
+  have := digits_run z (t := (pre ++ ds ++ rest).toArray) (i := pre.length) (ds := ds) (rest := rest)
+    (by simp) hd.1 hd.2 hr
+  simpa using this
+
+theorem hsp_roundtrip (pre bs rest : Str) (z : Bool) (hne : bs ≠ []) (hb : IsBlanks bs) (hr : NextNot isHsp rest) :
+    hsp (pre ++ bs ++ rest).toArray ⟨pre.length, z⟩ = some ((), ⟨(pre ++ bs).length, z⟩) := by
+  have := hsp_run z (t := (pre ++ bs ++ rest).toArray) (i := pre.length) (xs := bs) (rest := rest)
+    (by simp) hne hb hr
+  simpa using this
+
+/-- `hsp?` (also on the empty run) -/
+theorem ohsp_roundtrip (pre bs rest : Str) (z : Bool) (hb : IsBlanks bs) (hr : NextNot isHsp rest) :
+    ohsp (pre ++ bs ++ rest).toArray ⟨pre.length, z⟩ = some ((), ⟨(pre ++ bs).length, z⟩) := by
+  have := ohsp_run z (t := (pre ++ bs ++ rest).toArray) (i := pre.length) (xs := bs) (rest := rest)
+    (by simp) hb hr
+  simpa using this
+
+theorem sp_roundtrip (pre ws rest : Str) (z : Bool) (hne : ws ≠ []) (hw : IsSpaces ws) (hr : NextNot isReSpace rest) :
+    sp (pre ++ ws ++ rest).toArray ⟨pre.length, z⟩ = some ((), ⟨(pre ++ ws).length, z⟩) := by
+  have := sp_run z (t := (pre ++ ws ++ rest).toArray) (i := pre.length) (xs := ws) (rest := rest)
+    (by simp) hne hw hr
+  simpa using this
+
+/-- `sp?` (also on the empty run) -/
+theorem osp_roundtrip (pre ws rest : Str) (z : Bool) (hw : IsSpaces ws) (hr : NextNot isReSpace rest) :
+    osp (pre ++ ws ++ rest).toArray ⟨pre.length, z⟩ = some ((), ⟨(pre ++ ws).length, z⟩) := by
+  have := osp_run z (t := (pre ++ ws ++ rest).toArray) (i := pre.length) (xs := ws) (rest := rest)
+    (by simp) hw hr
+  simpa using this
+
+/-- a literal character is recognised wherever it stands, and nothing else is -/
+theorem lit_roundtrip (pre rest : Str) (c : Char) (z : Bool) :
+    lit c (pre ++ [c] ++ rest).toArray ⟨pre.length, z⟩ = some ((), ⟨(pre ++ [c]).length, z⟩) := by
+  have := lit_of_head (c := c) z (t := (pre ++ [c] ++ rest).toArray) (i := pre.length) (rest := rest) (by simp)
+  simpa using this
+
+theorem lit_rejects (pre rest : Str) (c : Char) (z : Bool) (h : rest.head? ≠ some c) :
+    lit c (pre ++ rest).toArray ⟨pre.length, z⟩ = none :=
+  lit_fail_of_head z (by simp) h
+
+example : digits "ab0129x".toList.toArray ⟨2, false⟩ = some ("0129".toList, ⟨6, false⟩) := by decide +kernel
+example : hsp "a \t b".toList.toArray ⟨1, true⟩ = some ((), ⟨4, true⟩) := by decide +kernel
+example : sp "a \n\t b".toList.toArray ⟨1, false⟩ = some ((), ⟨5, false⟩) := by decide +kernel
+
+/-! ## Layer 2: numbers -/
+
+/-- value of a digit run, most significant digit first -/
+def digitsValue (ds : Str) : Nat := ds.foldl (fun n d => 10 * n + (d.toNat - 48)) 0
+
+/-- the specification's reading of a digit run is the model's -/
+theorem natOfDigits_eq_digitsValue (ds : Str) : natOfDigits ds = digitsValue ds := rfl
+
+/-- the spellings of a number -/
+inductive NumLit where
+  /-- `[0-9]+` -/
+  | int (ds : Str)
+  /-- `[0-9]+ "." [0-9]*` -/
+  | dec (whole frac : Str)
+  /-- `p "/" blanks q`: no blank before the slash -/
+  | frac (p s2 q : Str)
+  /-- `w blanks p blanks "/" blanks q` -/
+  | mixed (w s0 p s1 s2 q : Str)
+
+namespace NumLit
+
+def print : NumLit → Str
+  | int ds => ds
+  | dec whole fr => whole ++ '.' :: fr
+  | frac p s2 q => p ++ '/' :: s2 ++ q
+  | mixed w s0 p s1 s2 q => w ++ s0 ++ p ++ s1 ++ '/' :: s2 ++ q
+
+/-- which spellings are permitted: digit runs where digits are required (the part after the
+    decimal point may be empty), blanks `[ \t]*` where blanks are allowed, at least one blank after
+    the integer part of a mixed fraction, and a denominator with a non-zero digit -/
+def WF : NumLit → Prop
+  | int ds => IsDigits ds
+  | dec whole fr => IsDigits whole ∧ ∀ c ∈ fr, isDigit c = true
+  | frac p s2 q => IsDigits p ∧ IsBlanks s2 ∧ IsDigits q ∧ digitsValue q ≠ 0
+  | mixed w s0 p s1 s2 q =>
+    IsDigits w ∧ s0 ≠ [] ∧ IsBlanks s0 ∧ IsDigits p ∧ IsBlanks s1 ∧ IsBlanks s2 ∧ IsDigits q ∧ digitsValue q ≠ 0
+
+/-- the number that is meant: an `int`, the `float` nearest to the decimal, or an exact `Fraction` -/
+def value : NumLit → Num
+  | int ds => ⟨(digitsValue ds : Nat), .int⟩
+  | dec whole fr => ⟨toDouble (mkRat (digitsValue (whole ++ fr) : Nat) (10 ^ fr.length)), .flt⟩
+  | frac p _ q => ⟨mkRat (digitsValue p) (digitsValue q), .frac⟩
+  | mixed w _ p _ _ q => ⟨((digitsValue w : Nat) : Rat) + mkRat (digitsValue p) (digitsValue q), .frac⟩
+
+end NumLit
+
+/-- `decimal` on an integer spelling: what follows must not continue the digits nor be a "." -/
+theorem decimal_int_roundtrip (pre ds rest : Str) (z : Bool) (hd : IsDigits ds)
+    (hr : NextNot isDigit rest) (hdot : rest.head? ≠ some '.') :
+    decimal (pre ++ (NumLit.int ds).print ++ rest).toArray ⟨pre.length, z⟩
+      = some ((pre.length, (NumLit.int ds).value), ⟨(pre ++ (NumLit.int ds).print).length, z⟩) := by
+  have := decimal_int z (t := (pre ++ ds ++ rest).toArray) (i := pre.length) (ds := ds) (rest := rest)
+    (by simp) hd.1 hd.2 hr hdot
+  simpa [NumLit.print, NumLit.value, natOfDigits_eq_digitsValue] using this
+
+/-- `decimal` on `whole "." frac` (the digits after the point may be missing) -/
+theorem decimal_dec_roundtrip (pre whole frac rest : Str) (z : Bool) (h : (NumLit.dec whole frac).WF)
+    (hr : NextNot isDigit rest) :
+    decimal (pre ++ (NumLit.dec whole frac).print ++ rest).toArray ⟨pre.length, z⟩
+      = some ((pre.length, (NumLit.dec whole frac).value), ⟨(pre ++ (NumLit.dec whole frac).print).length, z⟩) := by
+  have := decimal_flt z (t := (pre ++ (whole ++ '.' :: frac) ++ rest).toArray) (i := pre.length)
+    (whole := whole) (frac := frac) (rest := rest) (by simp) h.1.1 h.1.2 h.2 hr
+  simpa [NumLit.print, NumLit.value, natOfDigits_eq_digitsValue] using this
+
+/-- `fraction` on `p/q` -/
+theorem fraction_frac_roundtrip (pre p s2 q rest : Str) (z : Bool) (h : (NumLit.frac p s2 q).WF)
+    (hr : NextNot isDigit rest) :
+    fraction (pre ++ (NumLit.frac p s2 q).print ++ rest).toArray ⟨pre.length, z⟩
+      = some ((pre.length, (NumLit.frac p s2 q).value), ⟨(pre ++ (NumLit.frac p s2 q).print).length, z⟩) := by
+  obtain ⟨hp, hs2, hq, hq0⟩ := h
+  have := fraction_two z (t := (pre ++ (p ++ '/' :: s2 ++ q) ++ rest).toArray) (i := pre.length)
+    (p := p) (s2 := s2) (q := q) (rest := rest) (by simp) hp.1 hp.2 hs2 hq.1 hq.2 hq0 hr
+  simpa [NumLit.print, NumLit.value, natOfDigits_eq_digitsValue] using this
+
+/-- `fraction` on `w p/q` -/
+theorem fraction_mixed_roundtrip (pre w s0 p s1 s2 q rest : Str) (z : Bool)
+    (h : (NumLit.mixed w s0 p s1 s2 q).WF) (hr : NextNot isDigit rest) :
+    fraction (pre ++ (NumLit.mixed w s0 p s1 s2 q).print ++ rest).toArray ⟨pre.length, z⟩
+      = some ((pre.length, (NumLit.mixed w s0 p s1 s2 q).value),
+              ⟨(pre ++ (NumLit.mixed w s0 p s1 s2 q).print).length, z⟩) := by
+  obtain ⟨hw, hs0ne, hs0, hp, hs1, hs2, hq, hq0⟩ := h
+  have := fraction_three z (t := (pre ++ (w ++ s0 ++ p ++ s1 ++ '/' :: s2 ++ q) ++ rest).toArray) (i := pre.length)
+    (w := w) (s0 := s0) (p := p) (s1 := s1) (s2 := s2) (q := q) (rest := rest) (by simp)
+    hw.1 hw.2 hs0ne hs0 hp.1 hp.2 hs1 hs2 hq.1 hq.2 hq0 hr
+  simpa [NumLit.print, NumLit.value, natOfDigits_eq_digitsValue] using this
+
+/-- what may follow a spelling for `number` to recover exactly that spelling:
+    * after any spelling, no further digit;
+    * after an integer spelling moreover no ".", and - after optional blanks - neither a "/" nor
+      a digit (otherwise the text is, or starts like, a fraction). -/
+def NumLit.Follow : NumLit → Str → Prop
+  | .int _, rest => rest.head? ≠ some '.' ∧
+      ∀ c, (rest.dropWhile isHsp).head? = some c → isDigit c = false ∧ c ≠ '/'
+  | _, rest => NextNot isDigit rest
+
+/-- `number` (= `fraction / decimal`) recovers every permitted spelling, as the abstract
+    "spelling of a number" predicate used by the rules that embed numbers -/
+theorem numberAt_of_wf (l : NumLit) (rest : Str) (h : l.WF) (hf : l.Follow rest) :
+    NumberAt l.print rest l.value := by
+  intro t i z ht
+  cases l with
+  | int ds =>
+    obtain ⟨hdot, hr⟩ := hf
+    have hsplit : rest = rest.takeWhile isHsp ++ rest.dropWhile isHsp := List.takeWhile_append_dropWhile.symm
+    have hb : ∀ x ∈ rest.takeWhile isHsp, isHsp x = true := fun x hx => mem_takeWhile_imp hx
+    have hnh : ∀ c, (rest.dropWhile isHsp).head? = some c → isHsp c = false := by
+      intro c hc
+      have := List.head?_dropWhile_not isHsp rest
+      rw [hc] at this
+      simpa using this
+    have hff : fraction t ⟨i, z⟩ = none := by
+      apply fraction_fail_int z (ds := ds) (b := rest.takeWhile isHsp) (r := rest.dropWhile isHsp)
+        _ h.1 h.2 hb (fun c hc => ⟨hnh c hc, hr c hc⟩)
+      simpa [NumLit.print, List.append_assoc] using ht
+    have hnd : ∀ c, rest.head? = some c → isDigit c = false := by
+      intro c hc
+      cases hd : isDigit c with
+      | false => rfl
+      | true =>
+        have hh := isHsp_of_isDigit hd
+        cases rest with
+        | nil => cases hc
+        | cons x xs =>
+          simp only [List.head?_cons, Option.some.injEq] at hc
+          subst hc
+          have := (hr x (by simp [hh])).1
+          rw [hd] at this; cases this
+    rw [number_of_decimal hff]
+    have := decimal_int z ht h.1 h.2 hnd hdot
+    simpa [NumLit.print, NumLit.value, natOfDigits_eq_digitsValue] using this
+  | dec whole fr =>
+    have hff : fraction t ⟨i, z⟩ = none :=
+      fraction_fail_dot z (ds := whole) (rest := fr ++ rest) (by simpa [NumLit.print] using ht) h.1.1 h.1.2
+    rw [number_of_decimal hff]
+    have := decimal_flt z (whole := whole) (frac := fr) (rest := rest) (by simpa [NumLit.print] using ht)
+      h.1.1 h.1.2 h.2 hf
+    simpa [NumLit.print, NumLit.value, natOfDigits_eq_digitsValue] using this
+  | frac p s2 q =>
+    obtain ⟨hp, hs2, hq, hq0⟩ := h
+    apply number_of_fraction
+    have := fraction_two z (p := p) (s2 := s2) (q := q) (rest := rest) (by simpa [NumLit.print] using ht)
+      hp.1 hp.2 hs2 hq.1 hq.2 hq0 hf
+    simpa [NumLit.print, NumLit.value, natOfDigits_eq_digitsValue] using this
+  | mixed w s0 p s1 s2 q =>
+    obtain ⟨hw, hs0ne, hs0, hp, hs1, hs2, hq, hq0⟩ := h
+    apply number_of_fraction
+    have := fraction_three z (w := w) (s0 := s0) (p := p) (s1 := s1) (s2 := s2) (q := q) (rest := rest)
+      (by simpa [NumLit.print] using ht) hw.1 hw.2 hs0ne hs0 hp.1 hp.2 hs1 hs2 hq.1 hq.2 hq0 hf
+    simpa [NumLit.print, NumLit.value, natOfDigits_eq_digitsValue] using this
+
+/-- **numbers are recovered verbatim**: `number` on any permitted spelling -/
+theorem number_roundtrip (pre : Str) (l : NumLit) (rest : Str) (z : Bool) (h : l.WF) (hf : l.Follow rest) :
+    number (pre ++ l.print ++ rest).toArray ⟨pre.length, z⟩
+      = some ((pre.length, l.value), ⟨(pre ++ l.print).length, z⟩) := by
+  have := numberAt_of_wf l rest h hf (pre ++ l.print ++ rest).toArray pre.length z (by simp)
+  simpa using this
+
+/-! ### the canonical spellings (`natDigits`) -/
+
+theorem isDigits_natDigits (n : Nat) : IsDigits (natDigits n) :=
+  ⟨natDigits_ne_nil n, natDigits_all_digit n⟩
+
+theorem digitsValue_natDigits (n : Nat) : digitsValue (natDigits n) = n := digitsVal_natDigits n
+
+/-- the integer `n`, written in decimal, is read back as the `int` `n` -/
+theorem decimal_natDigits (pre rest : Str) (n : Nat) (z : Bool)
+    (hr : NextNot isDigit rest) (hdot : rest.head? ≠ some '.') :
+    decimal (pre ++ natDigits n ++ rest).toArray ⟨pre.length, z⟩
+      = some ((pre.length, ⟨(n : Rat), .int⟩), ⟨(pre ++ natDigits n).length, z⟩) := by
+  have := decimal_int_roundtrip pre (natDigits n) rest z (isDigits_natDigits n) hr hdot
+  simpa [NumLit.print, NumLit.value, digitsValue_natDigits] using this
+
+/-- `w.f` for a natural `w` and any digit run `f` (possibly empty) is read back as the `float`
+    nearest to `(w·10^|f| + f) / 10^|f|` -/
+theorem decimal_natDigits_dot (pre frac rest : Str) (w : Nat) (z : Bool)
+    (hfrac : ∀ c ∈ frac, isDigit c = true) (hr : NextNot isDigit rest) :
+    decimal (pre ++ (natDigits w ++ '.' :: frac) ++ rest).toArray ⟨pre.length, z⟩
+      = some ((pre.length, ⟨toDouble (mkRat (w * 10 ^ frac.length + digitsValue frac : Nat) (10 ^ frac.length)), .flt⟩),
+              ⟨(pre ++ (natDigits w ++ '.' :: frac)).length, z⟩) := by
+  have := decimal_dec_roundtrip pre (natDigits w) frac rest z ⟨isDigits_natDigits w, hfrac⟩ hr
+  have e : digitsValue (natDigits w ++ frac) = w * 10 ^ frac.length + digitsValue frac := by
+    have := digitsVal_append (natDigits w) frac
+    rw [digitsVal_natDigits] at this
+    exact this
+  simpa [NumLit.print, NumLit.value, e] using this
+
+/-- `p/q` (`q > 0`) is read back as the exact fraction `p/q` -/
+theorem fraction_natDigits (pre rest : Str) (p q : Nat) (z : Bool) (hq : 0 < q) (hr : NextNot isDigit rest) :
+    fraction (pre ++ (natDigits p ++ '/' :: natDigits q) ++ rest).toArray ⟨pre.length, z⟩
+      = some ((pre.length, ⟨mkRat p q, .frac⟩), ⟨(pre ++ (natDigits p ++ '/' :: natDigits q)).length, z⟩) := by
+  have := fraction_frac_roundtrip pre (natDigits p) [] (natDigits q) rest z
+    ⟨isDigits_natDigits p, by simp [IsBlanks], isDigits_natDigits q, by rw [digitsValue_natDigits]; omega⟩ hr
+  simpa [NumLit.print, NumLit.value, digitsValue_natDigits] using this
+
+/-- `i p/q` (`q > 0`) is read back as the exact fraction `i + p/q` -/
+theorem fraction_natDigits_mixed (pre rest : Str) (i p q : Nat) (z : Bool) (hq : 0 < q) (hr : NextNot isDigit rest) :
+    fraction (pre ++ (natDigits i ++ ' ' :: natDigits p ++ '/' :: natDigits q) ++ rest).toArray ⟨pre.length, z⟩
+      = some ((pre.length, ⟨(i : Rat) + mkRat p q, .frac⟩),
+              ⟨(pre ++ (natDigits i ++ ' ' :: natDigits p ++ '/' :: natDigits q)).length, z⟩) := by
+  have := fraction_mixed_roundtrip pre (natDigits i) [' '] (natDigits p) [] [] (natDigits q) rest z
+    ⟨isDigits_natDigits i, by simp, by simp [IsBlanks, isHsp], isDigits_natDigits p, by simp [IsBlanks],
+      by simp [IsBlanks], isDigits_natDigits q, by rw [digitsValue_natDigits]; omega⟩ hr
+  simpa [NumLit.print, NumLit.value, digitsValue_natDigits] using this
+
+/-- `number` reads the decimal digits of `n` back as the `int` `n` -/
+theorem number_natDigits (pre rest : Str) (n : Nat) (z : Bool) (hf : (NumLit.int (natDigits n)).Follow rest) :
+    number (pre ++ natDigits n ++ rest).toArray ⟨pre.length, z⟩
+      = some ((pre.length, ⟨(n : Rat), .int⟩), ⟨(pre ++ natDigits n).length, z⟩) := by
+  have := number_roundtrip pre (.int (natDigits n)) rest z (isDigits_natDigits n) hf
+  simpa [NumLit.print, NumLit.value, digitsValue_natDigits] using this
+
+/-- `number` reads `p/q` (`q > 0`) back as the exact fraction -/
+theorem number_natDigits_frac (pre rest : Str) (p q : Nat) (z : Bool) (hq : 0 < q) (hr : NextNot isDigit rest) :
+    number (pre ++ (natDigits p ++ '/' :: natDigits q) ++ rest).toArray ⟨pre.length, z⟩
+      = some ((pre.length, ⟨mkRat p q, .frac⟩), ⟨(pre ++ (natDigits p ++ '/' :: natDigits q)).length, z⟩) := by
+  have := number_roundtrip pre (.frac (natDigits p) [] (natDigits q)) rest z
+    ⟨isDigits_natDigits p, by simp [IsBlanks], isDigits_natDigits q, by rw [digitsValue_natDigits]; omega⟩ hr
+  simpa [NumLit.print, NumLit.value, digitsValue_natDigits] using this
+
+/-- a zero denominator is not a fraction (so `Fraction(n, 0)` is never built) -/
+example : fraction "1/0".toList.toArray ⟨0, false⟩ = none := by decide +kernel
+/-- a blank before the slash is only allowed in the three-part form -/
+example : fraction "1 /2".toList.toArray ⟨0, false⟩ = none := by decide +kernel
+example : number "x2 1 / 04,".toList.toArray ⟨1, false⟩
+    = some ((1, ⟨(2 : Rat) + mkRat 1 4, .frac⟩), ⟨9, false⟩) := by decide +kernel
+example : number "12 g".toList.toArray ⟨0, false⟩ = some ((0, ⟨12, .int⟩), ⟨2, false⟩) := by decide +kernel
+example : (NumLit.mixed "2".toList " ".toList "1".toList " ".toList " ".toList "04".toList).WF := by
+  simp [NumLit.WF, IsDigits, IsBlanks, isDigit, isHsp, digitsValue]
+
+/-! ## Layer 4: known units (also C12.4: every unit name, in any letter case, is recognised) -/
+
+/-- a word as written: each letter in lower (`false`) or upper (`true`) case -/
+def caseWord (w : Str) (upper : List Bool) : Str :=
+  List.zipWith (fun l up => if up then l.toUpper else l) w upper
+
+/-- a spelling of a unit name with the words `ws`: for each word the case of each of its letters,
+    and the separators between consecutive words -/
+def printUnit : List Str → List (List Bool) → List Str → Str
+  | [], _, _ => []
+  | [w], ms, _ => caseWord w (ms.headD [])
+  | w :: ws, ms, seps => caseWord w (ms.headD []) ++ seps.headD [] ++ printUnit ws ms.tail seps.tail
+
+/-- permitted spellings: one case choice per letter, and between two words one or more `\s` characters -/
+def UnitSpellingOk : List Str → List (List Bool) → List Str → Prop
+  | [w], [m], [] => m.length = w.length
+  | w :: w2 :: ws, m :: ms, s :: seps =>
+      m.length = w.length ∧ s ≠ [] ∧ IsSpaces s ∧ UnitSpellingOk (w2 :: ws) ms seps
+  | _, _, _ => False
+
+/-- the side conditions on the table of unit names, re-checked by the kernel whenever the table is
+    regenerated: the words are non-empty runs of ASCII lower-case letters, and no alternative's word
+    list is a proper prefix of another alternative's (within a word the `\b` rejects the shorter name;
+    a whole-word prefix such as `tea` before `tea spoon` would not be rejected) -/
+theorem unitPatterns_sideConditions :
+    Parser.unitPatterns.all unitWordsOk = true ∧ prefixFree Parser.unitPatterns = true := by
+  constructor <;> decide +kernel
+
+theorem caseVariant_caseWord (w : Str) (m : List Bool) (h : m.length = w.length) :
+    CaseVariant w (caseWord w m) := by
+  induction w generalizing m with
+  | nil => cases m with
+    | nil => exact .nil
+    | cons _ _ => simp at h
+  | cons l w ih =>
+    cases m with
+    | nil => simp at h
+    | cons b m =>
+      simp only [caseWord, List.zipWith_cons_cons]
+      refine .cons ?_ (ih m (by simpa using h))
+      cases b
+      · exact Or.inl (by simp)
+      · exact Or.inr (by simp)
+
+theorem unitText_printUnit : ∀ (ws : List Str) (ms : List (List Bool)) (seps : List Str),
+    UnitSpellingOk ws ms seps → UnitText ws (printUnit ws ms seps)
+  | [], _, _, h => by simp [UnitSpellingOk] at h
+  | [w], [], _, h => by simp [UnitSpellingOk] at h
+  | [w], [m], [], h => .one (caseVariant_caseWord w m h)
+  | [w], [m], _ :: _, h => by simp [UnitSpellingOk] at h
+  | [w], _ :: _ :: _, _, h => by simp [UnitSpellingOk] at h
+  | w :: w2 :: ws, [], _, h => by simp [UnitSpellingOk] at h
+  | w :: w2 :: ws, _ :: _, [], h => by simp [UnitSpellingOk] at h
+  | w :: w2 :: ws, m :: ms, s :: seps, h => by
+    obtain ⟨hm, hsne, hs, hrest⟩ := h
+    exact .cons (caseVariant_caseWord w m hm) hsne hs (by simp) (unitText_printUnit (w2 :: ws) ms seps hrest)
+
+/-- **every spelling of every unit name is recognised, and the longest name wins**: for each
+    alternative of the unit pattern, each choice of letter case and each choice of `\s+` separators,
+    `known_unit` consumes exactly that text when a non-word character (or nothing) follows -/
+theorem knownUnit_roundtrip (pre rest : Str) (z : Bool) (name : List String) (hname : name ∈ Gen.unitPatterns)
+    (ms : List (List Bool)) (seps : List Str) (hok : UnitSpellingOk (name.map String.toList) ms seps)
+    (hr : NextNot isReWord rest) :
+    knownUnit (pre ++ printUnit (name.map String.toList) ms seps ++ rest).toArray ⟨pre.length, z⟩
+      = some ((), ⟨(pre ++ printUnit (name.map String.toList) ms seps).length, z⟩) := by
+  have hmem : name.map String.toList ∈ Parser.unitPatterns := List.mem_map_of_mem hname
+  have := knownUnit_text hmem (unitText_printUnit _ ms seps hok) z
+    (t := (pre ++ printUnit (name.map String.toList) ms seps ++ rest).toArray) (i := pre.length)
+    (rest := rest) (by simp) hr
+  simpa using this
+
+example : knownUnit "2 Table \n SPOONS, heaped".toList.toArray ⟨2, false⟩ = some ((), ⟨16, false⟩) := by
+  decide +kernel
+example : printUnit ["table".toList, "spoons".toList]
+    [[true, false, false, false, false], [true, true, true, true, true, true]] [" \n ".toList]
+    = "Table \n SPOONS".toList := by decide +kernel
+/-- "g" is listed before "grams"; the word boundary makes the longer name win -/
+example : knownUnit "grams".toList.toArray ⟨0, false⟩ = some ((), ⟨5, false⟩) := by decide +kernel
+/-- a word character after the name: no unit -/
+example : knownUnit "gramsx".toList.toArray ⟨0, false⟩ = none := by decide +kernel
+
+/-! # C06, layer 3: strings.  Everything that can be written as a quoted, naked or bracketed string,
+    and every sequence of such atoms, is recovered verbatim by the string rules.
+
+    As in `Props/C06.lean` every round-trip statement has the shape
+    `rule (pre ++ print x ++ rest).toArray ⟨pre.length, z⟩ = some (x', ⟨(pre ++ print x).length, z⟩)`.
+    The printers, the admissibility predicates and the expected values below are the specification;
+    they do not mention the parser. -/
+
+/-! ## Quoted strings -/
+
+/-- `ESCAPE_CHARS.get(l, l)`: the character meant by the escape `\l` -/
+def escapeValue (l : Char) : Char :=
+  match Gen.escapeChars.lookup l.toNat with
+  | some n => Char.ofNat n
+  | none => l
+
+/-- the specification's reading of an escape is the model's -/
+theorem escapeValue_eq_unescape (l : Char) : escapeValue l = unescape l := rfl
+
+/-- one item of a quoted (or bracketed) string as written: a character standing for itself, or a
+    backslash followed by any character at all -/
+inductive QChar where
+  | raw (c : Char)
+  | esc (l : Char)
+
+namespace QChar
+
+def print : QChar → Str
+  | raw c => [c]
+  | esc l => ['\\', l]
+
+/-- the character that is meant -/
+def value : QChar → Char
+  | raw c => c
+  | esc l => escapeValue l
+
+/-- what may stand between two quotes `q`: every escape (also of a newline, of the quote, of the
+    backslash), and every raw character except the quote, the backslash and the newlines -/
+def Ok (q : Char) : QChar → Prop
+  | raw c => c ≠ q ∧ c ≠ '\\' ∧ isNewline c = false
+  | esc _ => True
+
+end QChar
+
+def printQuoted (q : Char) (items : List QChar) : Str := q :: items.flatMap QChar.print ++ [q]
+
+theorem quotedItemOk_of_ok {q : Char} {it : QChar} (h : it.Ok q) : QuotedItemOk q (it.print, it.value) := by
+  cases it with
+  | raw c => exact Or.inl ⟨c, rfl, h⟩
+  | esc l => exact Or.inr ⟨l, rfl⟩
+
+/-- the parser lemma in the vocabulary of this file -/
+theorem quotedString_of_ok {q : Char} (hq : q ≠ '\\') {items : List QChar} (hok : ∀ it ∈ items, it.Ok q)
+    {t : Array Char} {i : Nat} {after : Str} (z : Bool) (h : t.toList.drop i = printQuoted q items ++ after) :
+    quotedString q t ⟨i, z⟩
+      = some ([.sub i (items.map QChar.value)], ⟨i + (printQuoted q items).length, z⟩) := by
+  have := quotedString_items (q := q) hq (t := t) (i := i)
+    (items := items.map fun it => (it.print, it.value)) (rest := after) z
+    (by simpa [printQuoted, List.flatMap_map] using h)
+    (by intro it hit; simp only [List.mem_map] at hit; obtain ⟨x, hx, rfl⟩ := hit
+        exact quotedItemOk_of_ok (hok x hx))
+  simpa [printQuoted, List.flatMap_map, Function.comp_def] using this
+
+/-- **quoted strings are recovered item by item** (for any quote character other than the backslash;
+    the grammar uses `'` and `"`) -/
+theorem quoted_roundtrip_items (q : Char) (hq : q ≠ '\\') (pre : Str) (items : List QChar) (rest : Str)
+    (z : Bool) (hok : ∀ it ∈ items, it.Ok q) :
+    quotedString q (pre ++ printQuoted q items ++ rest).toArray ⟨pre.length, z⟩
+      = some ([.sub pre.length (items.map QChar.value)], ⟨(pre ++ printQuoted q items).length, z⟩) := by
+  have := quotedString_of_ok hq hok (t := (pre ++ printQuoted q items ++ rest).toArray) (i := pre.length)
+    (after := rest) z (by simp)
+  simpa using this
+
+/-! ### the canonical spelling -/
+
+/-- the letter `l` such that `\l` means `c`, if `ESCAPE_CHARS` has one -/
+def escapeLetter (c : Char) : Option Char :=
+  (Gen.escapeChars.find? fun p => p.2 == c.toNat).map fun p => Char.ofNat p.1
+
+/-- a character as `escape` writes it between quotes: the backslash, both quotes and the control
+    characters of `ESCAPE_CHARS` (among them both newlines) get their letter, everything else is raw -/
+def escapeChar (c : Char) : Str :=
+  match escapeLetter c with
+  | some l => ['\\', l]
+  | none => [c]
+
+def quote (q : Char) (s : Str) : Str := q :: s.flatMap escapeChar ++ [q]
+
+theorem escapeChar_eq (c : Char) : escapeChar c = (quoteItem c).1 := by
+  have e : escapeLetter c = escLetter? c := rfl
+  unfold escapeChar quoteItem
+  rw [e]
+  cases escLetter? c <;> rfl
+
+theorem flatMap_escapeChar (s : Str) : s.flatMap escapeChar = quoteBody s := by
+  have e : escapeChar = fun c => (quoteItem c).1 := funext escapeChar_eq
+  rw [e]; rfl
+
+theorem quote_roundtrip (q : Char) (hq : q = '\'' ∨ q = '"') (pre s rest : Str) (z : Bool) :
+    quotedString q (pre ++ quote q s ++ rest).toArray ⟨pre.length, z⟩
+      = some ([.sub pre.length s], ⟨(pre ++ quote q s).length, z⟩) := by
+  have := quotedString_quote (q := q) hq (t := (pre ++ quote q s ++ rest).toArray) (i := pre.length)
+    (s := s) (rest := rest) z (by simp [quote, flatMap_escapeChar])
+  simpa [quote, flatMap_escapeChar] using this
+
+/-- **every string can be written between single quotes**: whatever `s` is — quotes, backslashes
+    and newlines included, since they are written `\'`, `\\`, `\n`, `\r` — its canonical spelling is
+    read back as `s` -/
+theorem squoted_roundtrip (pre s rest : Str) (z : Bool) :
+    quotedString '\'' (pre ++ quote '\'' s ++ rest).toArray ⟨pre.length, z⟩
+      = some ([.sub pre.length s], ⟨(pre ++ quote '\'' s).length, z⟩) :=
+  quote_roundtrip '\'' (Or.inl rfl) pre s rest z
+
+/-- **every string can be written between double quotes** -/
+theorem dquoted_roundtrip (pre s rest : Str) (z : Bool) :
+    quotedString '"' (pre ++ quote '"' s ++ rest).toArray ⟨pre.length, z⟩
+      = some ([.sub pre.length s], ⟨(pre ++ quote '"' s).length, z⟩) :=
+  quote_roundtrip '"' (Or.inr rfl) pre s rest z
+
+example : quote '\'' "it's\n".toList = "'it\\'s\\n'".toList := by decide +kernel
+example : quotedString '\'' "x 'it\\'s\\n' y".toList.toArray ⟨2, false⟩
+    = some ([.sub 2 "it's\n".toList], ⟨11, false⟩) := by decide +kernel
+/-- an escape of a character without a meaning is that character; a raw newline is refused -/
+example : quotedString '"' "\"a\\qb\"".toList.toArray ⟨0, true⟩
+    = some ([.sub 0 "aqb".toList], ⟨6, true⟩) := by decide +kernel
+example : quotedString '"' "\"a\nb\"".toList.toArray ⟨0, false⟩ = none := by decide +kernel
+example : ∀ it ∈ [QChar.raw 'a', .esc '\n', .esc '"', .raw '\''], it.Ok '"' := by
+  simp [QChar.Ok, isNewline]
+
+/-! ## Naked strings -/
+
+/-- the characters that cannot occur in a naked string: `"',:=/(){}` -/
+def IsSpecialChar (c : Char) : Prop := c ∈ ['"', '\'', ',', ':', '=', '/', '(', ')', '{', '}']
+
+instance (c : Char) : Decidable (IsSpecialChar c) := by unfold IsSpecialChar; infer_instance
+
+/-- a naked string: non-empty, without special characters and newlines, and neither starting nor
+    ending with a `\s` character (inside, blanks are fine) -/
+def IsNaked (txt : Str) : Prop :=
+  txt ≠ [] ∧ (∀ c ∈ txt, ¬ IsSpecialChar c ∧ isNewline c = false)
+  ∧ (∀ c, txt.head? = some c → isReSpace c = false) ∧ (∀ c, txt.getLast? = some c → isReSpace c = false)
+
+/-- `c` cannot continue a naked string -/
+def StopsNaked (c : Char) : Prop := IsSpecialChar c ∨ isNewline c = true
+
+theorem isSpecial_iff (c : Char) : isSpecial c = true ↔ IsSpecialChar c := by
+  simp [isSpecial, IsSpecialChar]
+
+theorem isNakedInner_iff (c : Char) : isNakedInner c = true ↔ ¬ IsSpecialChar c ∧ isNewline c = false := by
+  simp [isNakedInner, ← isSpecial_iff]
+
+theorem isNakedInner_false_of_stops {c : Char} (h : StopsNaked c) : isNakedInner c = false := by
+  cases hi : isNakedInner c with
+  | false => rfl
+  | true =>
+    have := (isNakedInner_iff c).mp hi
+    rcases h with h | h
+    · exact absurd h this.1
+    · rw [this.2] at h; cases h
+
+theorem isNakedEdge_of (c : Char) (h1 : ¬ IsSpecialChar c) (h2 : isReSpace c = false) : isNakedEdge c = true := by
+  have : isSpecial c = false := by
+    cases hs : isSpecial c with
+    | false => rfl
+    | true => exact absurd ((isSpecial_iff c).mp hs) h1
+  simp [isNakedEdge, this, h2]
+
+/-- a naked string in terms of the character classes of the grammar -/
+theorem IsNaked.model {txt : Str} (h : IsNaked txt) :
+    txt ≠ [] ∧ (∀ c ∈ txt, isNakedInner c = true) ∧ (∀ c, txt.head? = some c → isNakedEdge c = true)
+    ∧ (∀ c, txt.getLast? = some c → isNakedEdge c = true) := by
+  obtain ⟨hne, hin, hfst, hlst⟩ := h
+  exact ⟨hne, fun c hc => (isNakedInner_iff c).mpr (hin c hc),
+    fun c hc => isNakedEdge_of c (hin c (List.mem_of_mem_head? hc)).1 (hfst c hc),
+    fun c hc => isNakedEdge_of c (hin c (List.mem_of_mem_getLast? hc)).1 (hlst c hc)⟩
+
+/-- **naked strings are recovered verbatim**; trailing white space `ws` (not newlines) is given
+    back, and the string ends at a special character, at a newline or at the end of the text -/
+theorem naked_roundtrip (pre txt ws rest : Str) (z : Bool) (h : IsNaked txt)
+    (hws : ∀ c ∈ ws, isReSpace c = true ∧ isNewline c = false)
+    (hr : ∀ c, rest.head? = some c → StopsNaked c) :
+    nakedString (pre ++ txt ++ (ws ++ rest)).toArray ⟨pre.length, z⟩
+      = some ([.sub pre.length txt], ⟨(pre ++ txt).length, z⟩) := by
+  obtain ⟨hne, hin, hfst, hlst⟩ := h.model
+  have := nakedString_run (t := (pre ++ txt ++ (ws ++ rest)).toArray) (i := pre.length) (txt := txt)
+    (ws := ws) (rest := rest) z (by simp) hne hin hfst hlst
+    hws (fun c hc => isNakedInner_false_of_stops (hr c hc))
+  simpa using this
+
+example : IsNaked "2 large eggs".toList := by
+  refine ⟨by decide, by decide, by decide, by decide⟩
+example : nakedString "2 large eggs \t, beaten".toList.toArray ⟨2, false⟩
+    = some ([.sub 2 "large eggs".toList], ⟨12, false⟩) := by decide +kernel
+
+/-! ## Bracketed strings -/
+
+/-- one item between the braces as written: a character (raw or escaped) or a number -/
+inductive BItem where
+  | chr (c : QChar)
+  | num (l : NumLit)
+
+def BItem.print : BItem → Str
+  | .chr c => c.print
+  | .num l => l.print
+
+/-- the text between the braces -/
+def printBody (items : List BItem) : Str := items.flatMap BItem.print
+
+def printBraced (items : List BItem) : Str := '{' :: printBody items ++ ['}']
+
+/-- what may stand between braces as a character: every escape, and every raw character except
+    the digits (they belong to numbers), the braces, the backslash and the newlines -/
+def QChar.BracedOk : QChar → Prop
+  | .raw c => isDigit c = false ∧ c ≠ '{' ∧ c ≠ '}' ∧ c ≠ '\\' ∧ isNewline c = false
+  | .esc _ => True
+
+/-- admissible bodies (`rest` is what follows the closing brace): admissible characters, and
+    permitted spellings of numbers, each followed by something that does not continue it -/
+def BracedOk (rest : Str) : List BItem → Prop
+  | [] => True
+  | .chr c :: items => c.BracedOk ∧ BracedOk rest items
+  | .num l :: items => (l.WF ∧ l.Follow (printBody items ++ '}' :: rest)) ∧ BracedOk rest items
+
+/-! The expected value.  Maximal runs of characters become one `.sub` each, numbers one `.num`
+    each.  Offsets: a `.num` carries the offset of its first digit; a run carries the offset of the
+    text of its first character — except for a run right after the `{`, which carries the offset of
+    the `{` itself.  `{}` is one empty `.sub`; a number right after the `{` leaves no empty `.sub`. -/
+
+mutual
+/-- inside a run that started at offset `o` with the characters `s` so far; the next item is
+    written at offset `off` -/
+def bracedRun (o : Nat) (s : Str) (off : Nat) : List BItem → AString
+  | [] => [.sub o s]
+  | .chr c :: items => bracedRun o (s ++ [c.value]) (off + c.print.length) items
+  | .num l :: items => .sub o s :: .num off l.value :: bracedAfterNum (off + l.print.length) items
+/-- right after a number; the next item is written at offset `off` -/
+def bracedAfterNum (off : Nat) : List BItem → AString
+  | [] => []
+  | .chr c :: items => bracedRun off [c.value] (off + c.print.length) items
+  | .num l :: items => .num off l.value :: bracedAfterNum (off + l.print.length) items
+end
+
+/-- the value of `{items}` written at offset `i` -/
+def bracedValue (i : Nat) : List BItem → AString
+  | [] => [.sub i []]
+  | .chr c :: items => bracedRun i [c.value] (i + 1 + c.print.length) items
+  | .num l :: items => .num (i + 1) l.value :: bracedAfterNum (i + 1 + l.print.length) items
+
+/-- the items in the vocabulary of the parser lemmas -/
+def BItem.toPiece : BItem → BPiece
+  | .chr c => .chr c.print c.value
+  | .num l => .num l.print l.value
+
+theorem printPieces_toPiece (items : List BItem) : printPieces (items.map BItem.toPiece) = printBody items := by
+  induction items with
+  | nil => rfl
+  | cons it items ih =>
+    cases it <;> simp only [List.map_cons, printPieces_cons, ih, printBody, List.flatMap_cons] <;> rfl
+
+theorem bracketCharOk_of_ok {c : QChar} (h : c.BracedOk) : BracketCharOk c.print c.value := by
+  cases c with
+  | raw c => exact Or.inl ⟨rfl, h⟩
+  | esc l => exact Or.inr ⟨l, rfl, rfl⟩
+
+theorem piecesOk_of_bracedOk (rest : Str) : ∀ items : List BItem, BracedOk rest items →
+    PiecesOk rest (items.map BItem.toPiece)
+  | [], _ => trivial
+  | .chr c :: items, h => ⟨bracketCharOk_of_ok h.1, piecesOk_of_bracedOk rest items h.2⟩
+  | .num l :: items, h => ⟨by
+      rw [printPieces_toPiece]; exact numberAt_of_wf l _ h.1.1 h.1.2, piecesOk_of_bracedOk rest items h.2⟩
+
+theorem specGo_toPiece : ∀ (items : List BItem) (off : Nat),
+    (∀ (o : Nat) (s : Str), s ≠ [] →
+      specGo off (some (o, s)) (items.map BItem.toPiece) = bracedRun o s off items)
+    ∧ specGo off none (items.map BItem.toPiece) = bracedAfterNum off items
+  | [], off => ⟨fun o s _ => by simp [specGo, closeRun, bracedRun], by simp [specGo, closeRun, bracedAfterNum]⟩
+  | .chr c :: items, off => by
+    have ih := specGo_toPiece items (off + c.print.length)
+    refine ⟨fun o s hs => ?_, ?_⟩
+    · simp only [List.map_cons, BItem.toPiece, specGo, extendRun, bracedRun]
+      exact ih.1 o (s ++ [c.value]) (by simp)
+    · simp only [List.map_cons, BItem.toPiece, specGo, extendRun, bracedAfterNum]
+      exact ih.1 off [c.value] (by simp)
+  | .num l :: items, off => by
+    have ih := specGo_toPiece items (off + l.print.length)
+    refine ⟨fun o s hs => ?_, ?_⟩
+    · cases s with
+      | nil => exact absurd rfl hs
+      | cons x xs => simp [BItem.toPiece, specGo, flushRun, bracedRun, ih.2]
+    · simp [BItem.toPiece, specGo, flushRun, bracedAfterNum, ih.2]
+
+theorem bracketSpec_toPiece (i : Nat) : ∀ items : List BItem,
+    bracketSpec i (items.map BItem.toPiece) = bracedValue i items
+  | [] => rfl
+  | .chr c :: items => by
+    simp only [bracketSpec, List.map_cons, BItem.toPiece, specGo, extendRun, List.nil_append, bracedValue]
+    exact (specGo_toPiece items _).1 i [c.value] (by simp)
+  | .num l :: items => by
+    simp [bracketSpec, BItem.toPiece, specGo, flushRun, bracedValue, (specGo_toPiece items _).2]
+
+/-- the parser lemma in the vocabulary of this file -/
+theorem bracketedString_of_ok {items : List BItem} {after : Str} (hok : BracedOk after items)
+    {t : Array Char} {i : Nat} (z : Bool) (h : t.toList.drop i = printBraced items ++ after) :
+    bracketedString t ⟨i, z⟩ = some (bracedValue i items, ⟨i + (printBraced items).length, z⟩) := by
+  have := bracketedString_pieces (t := t) (i := i) (ps := items.map BItem.toPiece) (rest := after) z
+    (by simpa [printBraced, printPieces_toPiece] using h) (piecesOk_of_bracedOk after items hok)
+  simpa [printBraced, printPieces_toPiece, bracketSpec_toPiece] using this
+
+/-- **bracketed strings are recovered verbatim**, numbers and all -/
+theorem braced_roundtrip (pre : Str) (items : List BItem) (rest : Str) (z : Bool) (hok : BracedOk rest items) :
+    bracketedString (pre ++ printBraced items ++ rest).toArray ⟨pre.length, z⟩
+      = some (bracedValue pre.length items, ⟨(pre ++ printBraced items).length, z⟩) := by
+  have := bracketedString_of_ok hok (t := (pre ++ printBraced items ++ rest).toArray) (i := pre.length) z
+    (by simp)
+  simpa using this
+
+/-! ### the canonical spelling -/
+
+/-- a character as it can always be written between braces: as between quotes, and moreover the
+    braces and the digits get a backslash (`\{`, `\}`, `\0` … `\9` mean the character itself) -/
+def braceEscapeChar (c : Char) : Str :=
+  match escapeLetter c with
+  | some l => ['\\', l]
+  | none => if c = '{' ∨ c = '}' ∨ isDigit c = true then ['\\', c] else [c]
+
+def braceQuote (s : Str) : Str := '{' :: s.flatMap braceEscapeChar ++ ['}']
+
+theorem braceEscapeChar_eq (c : Char) : braceEscapeChar c = (bracketItem c).1 := by
+  have e : escapeLetter c = escLetter? c := rfl
+  unfold braceEscapeChar bracketItem
+  rw [e]
+  cases escLetter? c
+  · simp only; split <;> rfl
+  · rfl
+
+theorem flatMap_braceEscapeChar (s : Str) : s.flatMap braceEscapeChar = bracketBody s := by
+  have e : braceEscapeChar = fun c => (bracketItem c).1 := funext braceEscapeChar_eq
+  rw [e]; rfl
+
+/-- **every string can be written between braces** (digits included), as one `.sub` -/
+theorem braceQuote_roundtrip (pre s rest : Str) (z : Bool) :
+    bracketedString (pre ++ braceQuote s ++ rest).toArray ⟨pre.length, z⟩
+      = some ([.sub pre.length s], ⟨(pre ++ braceQuote s).length, z⟩) := by
+  have := bracketedString_quote (t := (pre ++ braceQuote s ++ rest).toArray) (i := pre.length)
+    (s := s) (rest := rest) z (by simp [braceQuote, flatMap_braceEscapeChar])
+  simpa [braceQuote, flatMap_braceEscapeChar] using this
+
+example : braceQuote "a{1}\n".toList = "{a\\{\\1\\}\\n}".toList := by decide +kernel
+example : bracketedString "x{a 1/2 b3}".toList.toArray ⟨1, false⟩
+    = some ([.sub 1 "a ".toList, .num 4 ⟨mkRat 1 2, .frac⟩, .sub 7 " b".toList, .num 9 ⟨3, .int⟩], ⟨11, false⟩) := by
+  decide +kernel
+example (l m : NumLit) :
+    bracedValue 10 [.chr (.raw 'a'), .chr (.esc 'n'), .num l, .chr (.raw 'b'), .num m]
+      = [.sub 10 ['a', '\n'], .num 14 l.value, .sub (14 + l.print.length) ['b'],
+         .num (14 + l.print.length + 1) m.value] := rfl
+example (l : NumLit) : bracedValue 10 [.num l, .chr (.raw 'b')] = [.num 11 l.value, .sub (11 + l.print.length) ['b']] := rfl
+example : bracedValue 10 [] = [.sub 10 []] := rfl
+/-- an instance of the theorem with a number inside: `{a12b}` -/
+example : bracketedString "{a12b}".toList.toArray ⟨0, false⟩
+    = some ([.sub 0 ['a'], .num 2 ⟨((12 : Nat) : Rat), .int⟩, .sub 4 ['b']], ⟨6, false⟩) :=
+  braced_roundtrip [] [.chr (.raw 'a'), .num (.int ['1', '2']), .chr (.raw 'b')] [] false
+    ⟨by unfold QChar.BracedOk; decide, ⟨⟨by decide, by decide⟩, by decide, by decide⟩,
+      by unfold QChar.BracedOk; decide, trivial⟩
+
+/-! ## Strings: sequences of atoms -/
+
+/-- one atom of a string as written -/
+inductive StrAtom where
+  | naked (txt : Str)
+  | squoted (items : List QChar)
+  | dquoted (items : List QChar)
+  | braced (items : List BItem)
+
+namespace StrAtom
+
+def print : StrAtom → Str
+  | naked txt => txt
+  | squoted items => printQuoted '\'' items
+  | dquoted items => printQuoted '"' items
+  | braced items => printBraced items
+
+/-- the value of the atom written at offset `off` -/
+def value (off : Nat) : StrAtom → AString
+  | naked txt => [.sub off txt]
+  | squoted items => [.sub off (items.map QChar.value)]
+  | dquoted items => [.sub off (items.map QChar.value)]
+  | braced items => bracedValue off items
+
+def isNaked : StrAtom → Bool
+  | naked _ => true
+  | _ => false
+
+/-- admissible atoms (`after` is the text that follows the atom; only the numbers of a bracketed
+    atom care); a static string has no bracketed atoms -/
+def Ok (static : Bool) (after : Str) : StrAtom → Prop
+  | naked txt => IsNaked txt
+  | squoted items => ∀ it ∈ items, it.Ok '\''
+  | dquoted items => ∀ it ∈ items, it.Ok '"'
+  | braced items => static = false ∧ BracedOk after items
+
+end StrAtom
+
+/-- the atoms after the first one, each with the blanks before it -/
+def printMore : List (Str × StrAtom) → Str
+  | [] => []
+  | (bl, a) :: more => bl ++ a.print ++ printMore more
+
+/-- a whole string: the first atom, then (blanks, atom) pairs -/
+def printString (a : StrAtom) (more : List (Str × StrAtom)) : Str := a.print ++ printMore more
+
+/-- the value of the atoms after the first one, written from offset `off` on: non-empty blanks
+    are kept as a `.sub` of their own between the atoms -/
+def moreValue (off : Nat) : List (Str × StrAtom) → AString
+  | [] => []
+  | (bl, a) :: more =>
+    (if bl.isEmpty then [] else [.sub off bl]) ++ a.value (off + bl.length)
+      ++ moreValue (off + bl.length + a.print.length) more
+
+def stringValue (off : Nat) (a : StrAtom) (more : List (Str × StrAtom)) : AString :=
+  a.value off ++ moreValue (off + a.print.length) more
+
+/-- a character that ends every string: one of `,:=/()}`, a newline — and `{` in a static string -/
+def EndsString (static : Bool) (c : Char) : Prop :=
+  c ∈ [',', ':', '=', '/', '(', ')', '}'] ∨ isNewline c = true ∨ (static = true ∧ c = '{')
+
+/-- what may follow a string whose last atom is naked: white space (no newline), then the end of
+    the text or a character that ends every string -/
+def NakedFollow (static : Bool) (rest : Str) : Prop :=
+  ∃ ws rest', rest = ws ++ rest' ∧ (∀ c ∈ ws, isReSpace c = true ∧ isNewline c = false)
+    ∧ ∀ c, rest'.head? = some c → EndsString static c
+
+/-- what may follow a string whose last atom is quoted or bracketed: blanks, then the end of the
+    text, or any other `\s` character, or a character that ends every string -/
+def ClosedFollow (static : Bool) (rest : Str) : Prop :=
+  ∃ bl rest', rest = bl ++ rest' ∧ IsBlanks bl
+    ∧ ∀ c, rest'.head? = some c → isHsp c = false ∧ (isReSpace c = true ∨ EndsString static c)
+
+def LastFollow (static : Bool) (a : StrAtom) (rest : Str) : Prop :=
+  if a.isNaked = true then NakedFollow static rest else ClosedFollow static rest
+
+/-- admissible strings: admissible atoms separated by blanks `[ \t]*`; a naked atom is followed —
+    after its blanks — by an atom that is not naked (two naked atoms would read as one), or is the
+    last one; what follows the last atom must end the string -/
+def SeqOk (static : Bool) (rest : Str) : StrAtom → List (Str × StrAtom) → Prop
+  | a, [] => a.Ok static rest ∧ LastFollow static a rest
+  | a, (bl, b) :: more =>
+    a.Ok static (bl ++ printString b more ++ rest) ∧ IsBlanks bl
+      ∧ (a.isNaked = true → b.isNaked = false) ∧ SeqOk static rest b more
+
+/-! ### bridges to the parser lemmas -/
+
+theorem stopChar_of_endsString {static : Bool} {c : Char} (h : EndsString static c) : StopChar static c := by
+  rcases h with h | h | ⟨rfl, rfl⟩
+  · exact stopChar_of_mem h
+  · exact stopChar_of_isNewline h
+  · exact stopChar_lbrace_static
+
+theorem stringEnd_of_nakedFollow {static : Bool} {rest : Str} (h : NakedFollow static rest) :
+    StringEnd static rest := by
+  obtain ⟨ws, rest', rfl, hws, hr⟩ := h
+  exact stringEnd_of_stop (fun c hc => (hws c hc).1) (fun c hc => stopChar_of_endsString (hr c hc))
+
+theorem stringEnd_of_closedFollow {static : Bool} {rest : Str} (h : ClosedFollow static rest) :
+    StringEnd static rest := by
+  obtain ⟨bl, rest', rfl, hbl, hr⟩ := h
+  refine ⟨bl, rest', rfl, hbl, fun c hc => ⟨(hr c hc).1, ?_⟩⟩
+  rcases (hr c hc).2 with h | h
+  · exact noAtomStart_of_isReSpace h
+  · exact (stopChar_of_endsString h).noAtomStart
+
+/-- the text after a naked atom lets the naked string end where it should -/
+def NakedAfter (after : Str) : Prop :=
+  ∃ ws r, after = ws ++ r ∧ (∀ c ∈ ws, isReSpace c = true ∧ isNewline c = false)
+    ∧ ∀ c, r.head? = some c → isNakedInner c = false
+
+theorem atom_of_ok {static : Bool} {a : StrAtom} {after : Str} (hok : a.Ok static after)
+    (hnk : a.isNaked = true → NakedAfter after) {t : Array Char} {i : Nat} (z : Bool)
+    (h : t.toList.drop i = a.print ++ after) :
+    atom static t ⟨i, z⟩ = some (a.value i, ⟨i + a.print.length, z⟩) := by
+  cases a with
+  | naked txt =>
+    obtain ⟨ws, r, rfl, hws, hr⟩ := hnk rfl
+    obtain ⟨hne, hin, hfst, hlst⟩ := IsNaked.model hok
+    exact atom_naked z (by simpa [StrAtom.print] using h) hne hin hfst hlst hws hr
+  | squoted items =>
+    exact atom_squoted (rest' := items.flatMap QChar.print ++ '\'' :: after) z
+      (by simpa [StrAtom.print, printQuoted] using h) (quotedString_of_ok (by decide) hok z h)
+  | dquoted items =>
+    exact atom_dquoted (rest' := items.flatMap QChar.print ++ '"' :: after) z
+      (by simpa [StrAtom.print, printQuoted] using h) (quotedString_of_ok (by decide) hok z h)
+  | braced items =>
+    obtain ⟨rfl, hb⟩ := hok
+    exact atom_bracketed (rest' := printBody items ++ '}' :: after) z
+      (by simpa [StrAtom.print, printBraced] using h) (bracketedString_of_ok hb z h)
+
+theorem head_print_closed {b : StrAtom} (h : b.isNaked = false) :
+    ∃ c tl, b.print = c :: tl ∧ (c = '\'' ∨ c = '"' ∨ c = '{') := by
+  cases b with
+  | naked _ => cases h
+  | squoted items => exact ⟨_, _, rfl, Or.inl rfl⟩
+  | dquoted items => exact ⟨_, _, rfl, Or.inr (Or.inl rfl)⟩
+  | braced items => exact ⟨_, _, rfl, Or.inr (Or.inr rfl)⟩
+
+theorem head_print_of_ok {static : Bool} {after : Str} {b : StrAtom} (h : b.Ok static after) :
+    ∃ c tl, b.print = c :: tl ∧ (isNakedEdge c = true ∨ c = '\'' ∨ c = '"' ∨ c = '{') := by
+  cases hb : b.isNaked with
+  | false =>
+    obtain ⟨c, tl, e, hc⟩ := head_print_closed hb
+    exact ⟨c, tl, e, Or.inr hc⟩
+  | true =>
+    cases b with
+    | naked txt =>
+      obtain ⟨hne, _, hfst, _⟩ := IsNaked.model h
+      cases txt with
+      | nil => exact absurd rfl hne
+      | cons c tl => exact ⟨c, tl, rfl, Or.inl (hfst c rfl)⟩
+    | squoted _ => cases hb
+    | dquoted _ => cases hb
+    | braced _ => cases hb
+
+theorem SeqOk.headOk {static : Bool} {rest : Str} {b : StrAtom} {more : List (Str × StrAtom)}
+    (h : SeqOk static rest b more) : ∃ after, b.Ok static after := by
+  cases more with
+  | nil => exact ⟨_, h.1⟩
+  | cons p more => obtain ⟨bl, c⟩ := p; exact ⟨_, h.1⟩
+
+theorem atoms_of_seqOk {static : Bool} {t : Array Char} {z : Bool} {rest : Str} :
+    ∀ (more : List (Str × StrAtom)) (a : StrAtom) (i : Nat), SeqOk static rest a more →
+      t.toList.drop i = printString a more ++ rest →
+      Atoms static t z i (stringValue i a more) (i + (printString a more).length) := by
+  intro more
+  induction more with
+  | nil =>
+    intro a i hok h
+    have h' : t.toList.drop i = a.print ++ rest := by simpa [printString, printMore] using h
+    have e1 : stringValue i a [] = a.value i := by simp [stringValue, moreValue]
+    have e2 : i + (printString a []).length = i + a.print.length := by simp [printString, printMore]
+    rw [e1, e2]
+    obtain ⟨hok, hf⟩ := hok
+    unfold LastFollow at hf
+    cases hn : a.isNaked with
+    | true =>
+      rw [if_pos hn] at hf
+      have hse := stringEnd_of_nakedFollow hf
+      obtain ⟨ws, rest', e, hws, hr⟩ := hf
+      exact Atoms.last
+        (atom_of_ok hok (fun _ => ⟨ws, rest', e, hws, fun c hc => (stopChar_of_endsString (hr c hc)).1⟩) z h')
+        (drop_add_of_drop h') hse
+    | false =>
+      rw [if_neg (by simp [hn])] at hf
+      exact Atoms.last (atom_of_ok hok (fun hn' => by rw [hn] at hn'; cases hn') z h')
+        (drop_add_of_drop h') (stringEnd_of_closedFollow hf)
+  | cons p m ih =>
+    obtain ⟨bl, b⟩ := p
+    intro a i hok h
+    obtain ⟨hoka, hbl, hnn, hrest⟩ := hok
+    have h' : t.toList.drop i = a.print ++ (bl ++ printString b m ++ rest) := by
+      simpa [printString, printMore, List.append_assoc] using h
+    obtain ⟨after', hokb⟩ := hrest.headOk
+    obtain ⟨c, tl, eb, hc⟩ := head_print_of_ok hokb
+    have hhead : (printString b m ++ rest).head? = some c := by simp [printString, eb]
+    have ha := atom_of_ok hoka (fun hn => by
+      refine ⟨bl, printString b m ++ rest, by simp, fun x hx =>
+        ⟨isReSpace_of_isHsp (hbl x hx), isNewline_of_isHsp (hbl x hx)⟩, ?_⟩
+      obtain ⟨c', tl', eb', hc'⟩ := head_print_closed (hnn hn)
+      intro x hx
+      simp only [printString, eb', List.cons_append, List.head?_cons, Option.some.injEq] at hx
+      subst hx
+      rcases hc' with rfl | rfl | rfl <;> decide) z h'
+    have h1 : t.toList.drop (i + a.print.length) = bl ++ (printString b m ++ rest) := by
+      have := drop_add_of_drop h'
+      simpa [List.append_assoc] using this
+    have h2 := drop_add_of_drop h1
+    have ihb := ih b (i + a.print.length + bl.length) hrest h2
+    have hA := Atoms.cons ha h1 hbl
+      (fun x hx => by rw [hhead] at hx; cases hx; exact isHsp_of_atom_start hc) ihb
+    have e1 : stringValue i a ((bl, b) :: m)
+        = a.value i ++ if bl.isEmpty then stringValue (i + a.print.length + bl.length) b m
+            else .sub (i + a.print.length) bl :: stringValue (i + a.print.length + bl.length) b m := by
+      simp only [stringValue, moreValue]
+      split <;> simp
+    have e2 : i + (printString a ((bl, b) :: m)).length
+        = i + a.print.length + bl.length + (printString b m).length := by
+      simp only [printString, printMore, List.length_append]; omega
+    rw [e1, e2]
+    exact hA
+
+/-- **strings are recovered verbatim**: every admissible sequence of atoms, with the blanks
+    between them -/
+theorem string_roundtrip (static : Bool) (pre : Str) (a : StrAtom) (more : List (Str × StrAtom))
+    (rest : Str) (z : Bool) (hok : SeqOk static rest a more) :
+    string static (pre ++ printString a more ++ rest).toArray ⟨pre.length, z⟩
+      = some (stringValue pre.length a more, ⟨(pre ++ printString a more).length, z⟩) := by
+  have := string_of_atoms (atoms_of_seqOk (t := (pre ++ printString a more ++ rest).toArray) (z := z)
+    more a pre.length hok (by simp))
+  simpa using this
+
+/-- a single naked string -/
+theorem string_naked_roundtrip (static : Bool) (pre txt rest : Str) (z : Bool) (h : IsNaked txt)
+    (hf : NakedFollow static rest) :
+    string static (pre ++ txt ++ rest).toArray ⟨pre.length, z⟩
+      = some ([.sub pre.length txt], ⟨(pre ++ txt).length, z⟩) := by
+  have := string_roundtrip static pre (.naked txt) [] rest z ⟨h, by simpa [LastFollow, StrAtom.isNaked] using hf⟩
+  simpa [printString, printMore, stringValue, moreValue, StrAtom.print, StrAtom.value] using this
+
+/-- a single quoted string in the canonical spelling: every `s` at all -/
+theorem string_quote_roundtrip (static : Bool) (q : Char) (hq : q = '\'' ∨ q = '"') (pre s rest : Str)
+    (z : Bool) (hf : ClosedFollow static rest) :
+    string static (pre ++ quote q s ++ rest).toArray ⟨pre.length, z⟩
+      = some ([.sub pre.length s], ⟨(pre ++ quote q s).length, z⟩) := by
+  have := string_quote (static := static) (q := q) hq (t := (pre ++ quote q s ++ rest).toArray)
+    (i := pre.length) (s := s) (rest := rest) z (by simp [quote, flatMap_escapeChar])
+    (stringEnd_of_closedFollow hf)
+  simpa [quote, flatMap_escapeChar] using this
+
+/-- a single bracketed string in the canonical spelling: every `s` at all -/
+theorem string_braceQuote_roundtrip (pre s rest : Str) (z : Bool) (hf : ClosedFollow false rest) :
+    string false (pre ++ braceQuote s ++ rest).toArray ⟨pre.length, z⟩
+      = some ([.sub pre.length s], ⟨(pre ++ braceQuote s).length, z⟩) := by
+  have := string_bracket_quote (t := (pre ++ braceQuote s ++ rest).toArray)
+    (i := pre.length) (s := s) (rest := rest) z (by simp [braceQuote, flatMap_braceEscapeChar])
+    (stringEnd_of_closedFollow hf)
+  simpa [braceQuote, flatMap_braceEscapeChar] using this
+
+/-! ### examples -/
+
+example : string false "x 'y'{z} ,".toList.toArray ⟨0, false⟩
+    = some ([.sub 0 ['x'], .sub 1 [' '], .sub 2 ['y'], .sub 5 ['z']], ⟨8, false⟩) := by decide +kernel
+/-- a static string stops in front of a brace -/
+example : string true "x{z}".toList.toArray ⟨0, false⟩ = some ([.sub 0 ['x']], ⟨1, false⟩) := by
+  decide +kernel
+/-- two naked words are one naked string -/
+example : string false "a b".toList.toArray ⟨0, false⟩ = some ([.sub 0 "a b".toList], ⟨3, false⟩) := by
+  decide +kernel
+
+example : printString (.naked ['x']) [([' '], .squoted [.raw 'y']), ([], .braced [.chr (.raw 'z')])]
+    = "x 'y'{z}".toList := by decide +kernel
+example : stringValue 3 (.naked ['x']) [([' '], .squoted [.raw 'y']), ([], .braced [.chr (.raw 'z')])]
+    = [.sub 3 ['x'], .sub 4 [' '], .sub 5 ['y'], .sub 8 ['z']] := rfl
+
+/-- the admissibility conditions are satisfiable: `x 'y'{z}` followed by ` ,` -/
+theorem seqOk_example : SeqOk false " ,".toList (.naked ['x'])
+    [([' '], .squoted [.raw 'y']), ([], .braced [.chr (.raw 'z')])] := by
+  refine ⟨⟨by decide, by decide, by decide, by decide⟩, by unfold IsBlanks; decide, fun _ => rfl, ?_⟩
+  refine ⟨?_, by unfold IsBlanks; decide, (fun h => by cases h), ⟨rfl, ?_, trivial⟩, ?_⟩
+  · intro it hit; simp only [List.mem_singleton] at hit; subst hit; exact ⟨by decide, by decide, by decide⟩
+  · exact ⟨by decide, by decide, by decide, by decide, by decide⟩
+  · exact ⟨[' '], [','], rfl, by unfold IsBlanks; decide, fun c hc => by
+      cases hc; exact ⟨by decide, Or.inr (Or.inl (by decide))⟩⟩
+
+/-- … and the theorem applies to it, after any prefix -/
+example (pre : Str) (z : Bool) :
+    string false (pre ++ "x 'y'{z}".toList ++ " ,".toList).toArray ⟨pre.length, z⟩
+      = some ([.sub pre.length ['x'], .sub (pre.length + 1) [' '], .sub (pre.length + 1 + 1) ['y'],
+               .sub (pre.length + 1 + 1 + 3) ['z']], ⟨(pre ++ "x 'y'{z}".toList).length, z⟩) :=
+  string_roundtrip false pre (.naked ['x']) [([' '], .squoted [.raw 'y']), ([], .braced [.chr (.raw 'z')])]
+    " ,".toList z seqOk_example
+
+example : string true "flour , x".toList.toArray ⟨0, false⟩ = some ([.sub 0 "flour".toList], ⟨0 + 5, false⟩) := by
+  have := string_naked_roundtrip true [] "flour".toList " , x".toList false
+    ⟨by decide, by decide, by decide, by decide⟩
+    ⟨[' '], ", x".toList, rfl, by decide, fun c hc => by cases hc; exact Or.inl (by decide)⟩
+  simpa using this
+
+example : string false (quote '\'' "it's".toList ++ ['\n']).toArray ⟨0, false⟩
+    = some ([.sub 0 "it's".toList], ⟨(quote '\'' "it's".toList).length, false⟩) := by
+  have := string_quote_roundtrip false '\'' (Or.inl rfl) [] "it's".toList ['\n'] false
+    ⟨[], ['\n'], rfl, by simp [IsBlanks], fun c hc => by cases hc; exact ⟨by decide, Or.inl (by decide)⟩⟩
+  simpa using this
+
+/-! ## Layer 5: prepositions, amounts, references -/
+
+/-! ### regex fragments read on the text (follow conditions) -/
+
+/-- `s` starts with the literal `w` under `(?i)` -/
+def startsWithCI : Str → Str → Bool
+  | [], _ => true
+  | _ :: _, [] => false
+  | l :: w, c :: s => ciMatches c l && startsWithCI w s
+
+/-- regex `w\b` matches at the start of `s` (for a word `w` of letters) -/
+def wordAt (w s : Str) : Bool := startsWithCI w s && !((s.drop w.length).head?.any isReWord)
+
+/-- regex `[ \t]+w\b` matches at the start of `s` -/
+def blanksWordAt (w s : Str) : Bool := s.head?.any isHsp && wordAt w (s.dropWhile isHsp)
+
+/-- regex `(remaining|remainder|rest|left[ \t]*over)\b` matches at the start of `s` -/
+def remainderWordAt (s : Str) : Bool :=
+  wordAt "remaining".toList s || wordAt "remainder".toList s || wordAt "rest".toList s
+  || (startsWithCI "left".toList s && wordAt "over".toList ((s.drop 4).dropWhile isHsp))
+
+/-- one alternative of the unit regex (words joined by `\s+`, then `\b`) matches at the start of `s` -/
+def unitWordsAt : List Str → Str → Bool
+  | [], _ => false
+  | [w], s => wordAt w s
+  | w :: w2 :: ws, s => startsWithCI w s &&
+      ((s.drop w.length).head?.any isReSpace &&
+        unitWordsAt (w2 :: ws) ((s.drop w.length).dropWhile isReSpace))
+
+/-- some unit name matches at the start of `s` -/
+def unitNameAt (s : Str) : Bool := Gen.unitPatterns.any fun name => unitWordsAt (name.map String.toList) s
+
+theorem startsWithCI_eq : ∀ (w s : Str), startsWithCI w s = ciPrefix w s
+  | [], _ => rfl
+  | _ :: _, [] => rfl
+  | l :: w, c :: s => by simp only [startsWithCI, ciPrefix, startsWithCI_eq w s]
+
+theorem wordAt_eq (w s : Str) : wordAt w s = ciWordAt w s := by
+  simp only [wordAt, ciWordAt, startsWithCI_eq]
+
+theorem blanksWordAt_eq (w s : Str) : blanksWordAt w s = hspWordAt w s := by
+  simp only [blanksWordAt, hspWordAt, wordAt_eq]
+
+theorem unitWordsAt_eq : ∀ (ws : List Str) (s : Str), unitWordsAt ws s = patMatch ws s
+  | [], _ => rfl
+  | [w], s => by simp only [unitWordsAt, patMatch, wordAt_eq]
+  | w :: w2 :: ws, s => by
+    simp only [unitWordsAt, patMatch, startsWithCI_eq, unitWordsAt_eq (w2 :: ws)]
+
+theorem unitNameAt_eq (s : Str) : unitNameAt s = unitAt s := by
+  simp only [unitNameAt, unitAt, Parser.unitPatterns, List.any_map, unitWordsAt_eq]
+  rfl
+
+theorem remainderWordAt_eq (s : Str) : remainderWordAt s = (remainderLen s).isSome := by
+  have hl : (startsWithCI "left".toList s && wordAt "over".toList ((s.drop 4).dropWhile isHsp)) = leftOverAt s := by
+    simp only [leftOverAt, wordAt_eq, startsWithCI_eq]; rfl
+  have e1 : wordAt "remaining".toList s = ciWordAt wRemaining s := wordAt_eq _ _
+  have e2 : wordAt "remainder".toList s = ciWordAt wRemainder s := wordAt_eq _ _
+  have e3 : wordAt "rest".toList s = ciWordAt wRest s := wordAt_eq _ _
+  simp only [remainderWordAt, remainderLen, hl, e1, e2, e3]
+  split
+  · simp [*]
+  · split
+    · simp [*]
+    · split
+      · simp [*]
+      · split <;> simp_all
+
+/-! ### prepositions -/
+
+/-- the optional preposition after an amount, as written (`m`, `m2`: the case of each letter) -/
+inductive PrepLit where
+  | none
+  /-- blanks, "of" -/
+  | of (bl : Str) (m : List Bool)
+  /-- blanks, "of", blanks, "the" -/
+  | ofThe (bl : Str) (m : List Bool) (bl2 : Str) (m2 : List Bool)
+
+namespace PrepLit
+
+def print : PrepLit → Str
+  | none => []
+  | of bl m => bl ++ caseWord "of".toList m
+  | ofThe bl m bl2 m2 => bl ++ caseWord "of".toList m ++ bl2 ++ caseWord "the".toList m2
+
+def WF : PrepLit → Prop
+  | none => True
+  | of bl m => bl ≠ [] ∧ IsBlanks bl ∧ m.length = 2
+  | ofThe bl m bl2 m2 => bl ≠ [] ∧ IsBlanks bl ∧ m.length = 2 ∧ bl2 ≠ [] ∧ IsBlanks bl2 ∧ m2.length = 3
+
+/-- what may follow: no preposition is taken only where the text does not go on with `[ \t]+of\b`;
+    "of" is taken only where no `[ \t]+the\b` follows; and the word must end -/
+def Follow : PrepLit → Str → Prop
+  | none, rest => blanksWordAt "of".toList rest = false
+  | of _ _, rest => NextNot isReWord rest ∧ blanksWordAt "the".toList rest = false
+  | ofThe _ _ _ _, rest => NextNot isReWord rest
+
+end PrepLit
+
+theorem prepAt_of_wf (p : PrepLit) (rest : Str) (h : p.WF) (hf : p.Follow rest) : PrepAt p.print rest := by
+  cases p with
+  | none =>
+    exact prepAt_nil (by rw [← blanksWordAt_eq]; exact hf)
+  | of bl m =>
+    obtain ⟨hne, hbl, hm⟩ := h
+    exact prepAt_of hne hbl (caseVariant_caseWord _ m hm) hf.1 (by rw [← blanksWordAt_eq]; exact hf.2)
+  | ofThe bl m bl2 m2 =>
+    obtain ⟨hne, hbl, hm, hne2, hbl2, hm2⟩ := h
+    exact prepAt_of_the hne hbl (caseVariant_caseWord _ m hm) hne2 hbl2 (caseVariant_caseWord _ m2 hm2) hf
+
+/-- **prepositions are recovered verbatim** (`(hsp preposition)?` returns the text it took) -/
+theorem hspPreposition_roundtrip (pre : Str) (p : PrepLit) (rest : Str) (z : Bool) (h : p.WF) (hf : p.Follow rest) :
+    hspPreposition (pre ++ p.print ++ rest).toArray ⟨pre.length, z⟩
+      = some (p.print, ⟨(pre ++ p.print).length, z⟩) := by
+  have := prepAt_of_wf p rest h hf (pre ++ p.print ++ rest).toArray pre.length z (by simp)
+  simpa using this
+
+/-! ### the remainder words -/
+
+inductive RemainderLit where
+  | remaining (m : List Bool)
+  | remainder (m : List Bool)
+  | rest (m : List Bool)
+  /-- "left", optional blanks, "over" -/
+  | leftOver (m1 : List Bool) (bl : Str) (m2 : List Bool)
+
+namespace RemainderLit
+
+def print : RemainderLit → Str
+  | remaining m => caseWord "remaining".toList m
+  | remainder m => caseWord "remainder".toList m
+  | rest m => caseWord "rest".toList m
+  | leftOver m1 bl m2 => caseWord "left".toList m1 ++ bl ++ caseWord "over".toList m2
+
+def WF : RemainderLit → Prop
+  | remaining m => m.length = 9
+  | remainder m => m.length = 9
+  | rest m => m.length = 4
+  | leftOver m1 bl m2 => m1.length = 4 ∧ IsBlanks bl ∧ m2.length = 4
+
+end RemainderLit
+
+theorem remainderAt_of_wf (w : RemainderLit) (rest : Str) (h : w.WF) (hf : NextNot isReWord rest) :
+    RemainderAt w.print rest := by
+  cases w with
+  | remaining m => exact remainderAt_remaining (caseVariant_caseWord _ m h) hf
+  | remainder m => exact remainderAt_remainder (caseVariant_caseWord _ m h) hf
+  | rest m => exact remainderAt_rest (caseVariant_caseWord _ m h) hf
+  | leftOver m1 bl m2 =>
+    exact remainderAt_leftOver (caseVariant_caseWord _ m1 h.1) h.2.1 (caseVariant_caseWord _ m2 h.2.2) hf
+
+/-- `remainder` on every spelling of the remainder words, before a non-word character -/
+theorem remainder_roundtrip (pre : Str) (w : RemainderLit) (rest : Str) (z : Bool) (h : w.WF)
+    (hf : NextNot isReWord rest) :
+    Parser.remainder (pre ++ w.print ++ rest).toArray ⟨pre.length, z⟩
+      = some ((), ⟨(pre ++ w.print).length, z⟩) := by
+  have := (remainderAt_of_wf w rest h hf).run (t := (pre ++ w.print ++ rest).toArray) (i := pre.length) z (by simp)
+  simpa using this
+
+/-! ### amounts -/
+
+/-- a unit name as written: which alternative, the case of every letter, the `\s+` between the words -/
+structure UnitLit where
+  name : List String
+  ms : List (List Bool)
+  seps : List Str
+
+def UnitLit.print (u : UnitLit) : Str := printUnit (u.name.map String.toList) u.ms u.seps
+def UnitLit.WF (u : UnitLit) : Prop :=
+  u.name ∈ Gen.unitPatterns ∧ UnitSpellingOk (u.name.map String.toList) u.ms u.seps
+
+/-- a whole `string` as written: the first atom and the further (blanks, atom) pairs -/
+structure StringLit where
+  first : StrAtom
+  more : List (Str × StrAtom)
+
+def StringLit.print (s : StringLit) : Str := printString s.first s.more
+def StringLit.value (off : Nat) (s : StringLit) : AString := stringValue off s.first s.more
+def StringLit.Ok (static : Bool) (rest : Str) (s : StringLit) : Prop := SeqOk static rest s.first s.more
+
+/-- the spellings of an amount -/
+inductive AmountLit where
+  /-- `remaining`, `rest of the`, … -/
+  | remainder (w : RemainderLit) (prep : PrepLit)
+  /-- `1/2 of`, `2 of the` -/
+  | ofNumber (n : NumLit) (prep : PrepLit)
+  /-- `50%`, `50 % of the` -/
+  | percent (n : NumLit) (bl : Str) (prep : PrepLit)
+  /-- `0.5 *` -/
+  | times (n : NumLit) (bl : Str)
+  /-- `{2}`, `{ 2 large } of` -/
+  | explicit (b1 : Str) (n : NumLit) (unit : Option (Str × StringLit)) (b3 : Str) (prep : PrepLit)
+  /-- `2`, `100g`, `1 1/2 Table Spoons of the` -/
+  | implicit (n : NumLit) (unit : Option (Str × UnitLit × PrepLit))
+
+namespace AmountLit
+
+def print : AmountLit → Str
+  | remainder w p => w.print ++ p.print
+  | ofNumber n p => n.print ++ p.print
+  | percent n bl p => n.print ++ bl ++ '%' :: p.print
+  | times n bl => n.print ++ bl ++ ['*']
+  | explicit b1 n none b3 p => '{' :: b1 ++ n.print ++ b3 ++ '}' :: p.print
+  | explicit b1 n (some (b2, u)) b3 p => '{' :: b1 ++ n.print ++ b2 ++ u.print ++ b3 ++ '}' :: p.print
+  | implicit n none => n.print
+  | implicit n (some (sp, u, p)) => n.print ++ sp ++ u.print ++ p.print
+
+/-- the expected `ast.Quantity` / `ast.Proportion` for the amount written at offset `off` -/
+def value (off : Nat) : AmountLit → AAmount
+  | remainder w p => .prop off none false (some w.print) p.print
+  | ofNumber n p => .prop off (some n.value) false none p.print
+  | percent n bl p => .prop off (n.value.div (Num.ofNat 100)) true none (bl ++ '%' :: p.print)
+  | times n bl => .prop off (some n.value) false none (bl ++ ['*'])
+  | explicit _ n none _ p => .qty off n.value none [] p.print
+  | explicit b1 n (some (b2, u)) _ p =>
+    .qty off n.value (some (u.value (off + 1 + b1.length + n.print.length + b2.length))) b2 p.print
+  | implicit n none => .qty off n.value none [] []
+  | implicit n (some (sp, u, p)) =>
+    .qty off n.value (some [.sub (off + n.print.length + sp.length) u.print]) sp p.print
+
+/-- permitted spellings and what may follow them (`rest`), rule by rule -/
+def Ok (rest : Str) : AmountLit → Prop
+  | remainder w p => w.WF ∧ p.WF ∧ p.Follow rest ∧ NextNot isReWord rest
+  | ofNumber n p => n.WF ∧ n.Follow (p.print ++ rest) ∧ p.print ≠ [] ∧ p.WF ∧ p.Follow rest
+  | percent n bl p => n.WF ∧ n.Follow (bl ++ '%' :: p.print ++ rest) ∧ IsBlanks bl ∧ p.WF ∧ p.Follow rest
+  | times n bl => n.WF ∧ n.Follow (bl ++ '*' :: rest) ∧ IsBlanks bl
+  | explicit b1 n none b3 p =>
+    IsBlanks b1 ∧ n.WF ∧ n.Follow (b3 ++ '}' :: p.print ++ rest) ∧ IsBlanks b3 ∧ p.WF ∧ p.Follow rest
+  | explicit b1 n (some (b2, u)) b3 p =>
+    IsBlanks b1 ∧ n.WF ∧ n.Follow (b2 ++ u.print ++ b3 ++ '}' :: p.print ++ rest) ∧ IsBlanks b2
+      ∧ u.Ok true (b3 ++ '}' :: p.print ++ rest) ∧ IsBlanks b3 ∧ p.WF ∧ p.Follow rest
+  | implicit n none => n.WF ∧ n.Follow rest ∧ unitNameAt (rest.dropWhile isHsp) = false
+  | implicit n (some (sp, u, p)) =>
+    n.WF ∧ n.Follow (sp ++ u.print ++ p.print ++ rest) ∧ IsBlanks sp ∧ u.WF ∧ p.WF ∧ p.Follow rest
+      ∧ NextNot isReWord rest
+
+end AmountLit
+
+theorem stringAt_of_ok (static : Bool) (s : StringLit) (rest : Str) (h : s.Ok static rest) :
+    StringAt static s.print rest (fun off => s.value off) := by
+  intro t i z ht
+  exact string_of_atoms (atoms_of_seqOk s.more s.first i h ht)
+
+theorem StringLit.head_not_blank {static : Bool} {s : StringLit} {rest : Str} (h : s.Ok static rest) (x : Str) :
+    ∀ c, (s.print ++ x).head? = some c → isHsp c = false := by
+  obtain ⟨after, hok⟩ := SeqOk.headOk h
+  obtain ⟨c, tl, e, hc⟩ := head_print_of_ok hok
+  intro d hd
+  simp only [StringLit.print, printString, e, List.cons_append, List.head?_cons, Option.some.injEq] at hd
+  subst hd
+  exact isHsp_of_atom_start hc
+
+/-- `proportion` on its four kinds of spellings -/
+theorem proportion_roundtrip (pre : Str) (a : AmountLit) (rest : Str) (z : Bool) (h : a.Ok rest)
+    (hk : match a with | .explicit .. => False | .implicit .. => False | _ => True) :
+    proportion (pre ++ a.print ++ rest).toArray ⟨pre.length, z⟩
+      = some (a.value pre.length, ⟨(pre ++ a.print).length, z⟩) := by
+  cases a with
+  | remainder w p =>
+    obtain ⟨hw, hp, hpf, hr⟩ := h
+    have hP := prepAt_of_wf p rest hp hpf
+    have := proportion_remainder (remainderAt_of_wf w (p.print ++ rest) hw (hP.head_not_word hr)) hP z
+      (t := (pre ++ (w.print ++ p.print) ++ rest).toArray) (i := pre.length) (by simp)
+    simpa [AmountLit.print, AmountLit.value] using this
+  | ofNumber n p =>
+    obtain ⟨hn, hnf, hne, hp, hpf⟩ := h
+    have hN := numberAt_of_wf n (p.print ++ rest) hn hnf
+    have ht : ((pre ++ (n.print ++ p.print) ++ rest).toArray).toList.drop pre.length
+        = n.print ++ (p.print ++ rest) := by simp
+    have h1 := proportion_number hN z ht
+    have h2 := proportionTail_of (prepAt_of_wf p rest hp hpf) hne pre.length n.value z (drop_add_of_drop ht)
+    rw [h2] at h1
+    simpa [AmountLit.print, AmountLit.value, Nat.add_assoc] using h1
+  | percent n bl p =>
+    obtain ⟨hn, hnf, hbl, hp, hpf⟩ := h
+    have hN := numberAt_of_wf n (bl ++ '%' :: p.print ++ rest) hn hnf
+    have ht : ((pre ++ (n.print ++ bl ++ '%' :: p.print) ++ rest).toArray).toList.drop pre.length
+        = n.print ++ (bl ++ '%' :: p.print ++ rest) := by simp
+    have h1 := proportion_number hN z ht
+    have h2 := proportionTail_percent hbl (prepAt_of_wf p rest hp hpf) pre.length n.value z (drop_add_of_drop ht)
+    rw [h2] at h1
+    simpa [AmountLit.print, AmountLit.value, Nat.add_assoc] using h1
+  | times n bl =>
+    obtain ⟨hn, hnf, hbl⟩ := h
+    have hN := numberAt_of_wf n (bl ++ '*' :: rest) hn hnf
+    have ht : ((pre ++ (n.print ++ bl ++ ['*']) ++ rest).toArray).toList.drop pre.length
+        = n.print ++ (bl ++ '*' :: rest) := by simp
+    have h1 := proportion_number hN z ht
+    have h2 := proportionTail_star hbl pre.length n.value z (drop_add_of_drop ht)
+    rw [h2] at h1
+    simpa [AmountLit.print, AmountLit.value, Nat.add_assoc] using h1
+  | explicit b1 n u b3 p => exact absurd hk (by simp)
+  | implicit n u => exact absurd hk (by simp)
+
+/-- `explicit_quantity` on `{ number }` and `{ number unit }`, with the optional preposition -/
+theorem explicitQuantity_roundtrip (pre : Str) (b1 : Str) (n : NumLit) (unit : Option (Str × StringLit))
+    (b3 : Str) (p : PrepLit) (rest : Str) (z : Bool) (h : (AmountLit.explicit b1 n unit b3 p).Ok rest) :
+    explicitQuantity (pre ++ (AmountLit.explicit b1 n unit b3 p).print ++ rest).toArray ⟨pre.length, z⟩
+      = some ((AmountLit.explicit b1 n unit b3 p).value pre.length,
+              ⟨(pre ++ (AmountLit.explicit b1 n unit b3 p).print).length, z⟩) := by
+  cases unit with
+  | none =>
+    obtain ⟨hb1, hn, hnf, hb3, hp, hpf⟩ := h
+    have := explicitQuantity_bare hb1 (numberAt_of_wf n _ hn hnf) hb3 (prepAt_of_wf p rest hp hpf) z
+      (t := (pre ++ ('{' :: b1 ++ n.print ++ b3 ++ '}' :: p.print) ++ rest).toArray) (i := pre.length) (by simp)
+    simpa [AmountLit.print, AmountLit.value] using this
+  | some bu =>
+    obtain ⟨b2, u⟩ := bu
+    obtain ⟨hb1, hn, hnf, hb2, hu, hb3, hp, hpf⟩ := h
+    have := explicitQuantity_unit hb1 (numberAt_of_wf n _ hn hnf) hb2 (stringAt_of_ok true u _ hu)
+      (StringLit.head_not_blank hu _) hb3 (prepAt_of_wf p rest hp hpf) z
+      (t := (pre ++ ('{' :: b1 ++ n.print ++ b2 ++ u.print ++ b3 ++ '}' :: p.print) ++ rest).toArray)
+      (i := pre.length) (by simp)
+    simpa [AmountLit.print, AmountLit.value] using this
+
+theorem unitText_of_wf (u : UnitLit) (h : u.WF) :
+    u.name.map String.toList ∈ Parser.unitPatterns ∧ UnitText (u.name.map String.toList) u.print :=
+  ⟨List.mem_map_of_mem h.1, unitText_printUnit _ u.ms u.seps h.2⟩
+
+/-- `implicit_quantity` on a number, optionally followed by a known unit and a preposition -/
+theorem implicitQuantity_roundtrip (pre : Str) (n : NumLit) (unit : Option (Str × UnitLit × PrepLit))
+    (rest : Str) (z : Bool) (h : (AmountLit.implicit n unit).Ok rest) :
+    implicitQuantity (pre ++ (AmountLit.implicit n unit).print ++ rest).toArray ⟨pre.length, z⟩
+      = some ((AmountLit.implicit n unit).value pre.length,
+              ⟨(pre ++ (AmountLit.implicit n unit).print).length, z⟩) := by
+  cases unit with
+  | none =>
+    obtain ⟨hn, hnf, hu⟩ := h
+    have := implicitQuantity_bare (numberAt_of_wf n rest hn hnf) (by rw [← unitNameAt_eq]; exact hu) z
+      (t := (pre ++ n.print ++ rest).toArray) (i := pre.length) (by simp)
+    simpa [AmountLit.print, AmountLit.value] using this
+  | some sup =>
+    obtain ⟨sp, u, p⟩ := sup
+    obtain ⟨hn, hnf, hsp, hu, hp, hpf, hr⟩ := h
+    obtain ⟨hmem, hU⟩ := unitText_of_wf u hu
+    have := implicitQuantity_unit (numberAt_of_wf n _ hn hnf) hsp hmem hU (prepAt_of_wf p rest hp hpf) hr z
+      (t := (pre ++ (n.print ++ sp ++ u.print ++ p.print) ++ rest).toArray) (i := pre.length) (by simp)
+    simpa [AmountLit.print, AmountLit.value] using this
+
+/-! ### the ordered choice `proportion / explicit_quantity / implicit_quantity` and references -/
+
+/-- besides `Ok`: a bare number is only an implicit quantity where `proportion` does not take it,
+    i.e. where neither `[ \t]+of\b` nor (after optional blanks) `%` or `*` follows -/
+def AmountLit.Reached (rest : Str) : AmountLit → Prop
+  | .implicit _ none => blanksWordAt "of".toList rest = false ∧
+      ∀ c, (rest.dropWhile isHsp).head? = some c → c ≠ '%' ∧ c ≠ '*'
+  | _ => True
+
+/-- **amounts are recovered verbatim**: the ordered choice of `reference` takes every permitted
+    spelling of an amount as that amount -/
+theorem amountAt_of_ok (a : AmountLit) (rest : Str) (h : a.Ok rest) (hr : a.Reached rest) :
+    AmountAt a.print rest (fun off => a.value off) := by
+  -- restate the rule-level round trips for an arbitrary text
+  intro t i z ht
+  have hi : i ≤ t.size ∨ a.print ++ rest = [] := by
+    rcases Nat.le_total i t.size with h1 | h1
+    · exact Or.inl h1
+    · right; rw [← ht]; simp [h1]
+  have htxt : a.print ≠ [] := by
+    cases a with
+    | remainder w p =>
+      cases w <;> simp [AmountLit.print, RemainderLit.print, caseWord] <;>
+        (simp only [AmountLit.Ok, RemainderLit.WF] at h; intro hh; simp_all)
+    | ofNumber n p => simp only [AmountLit.Ok] at h; simp [AmountLit.print, h.2.2.1]
+    | percent n bl p => simp [AmountLit.print]
+    | times n bl => simp [AmountLit.print]
+    | explicit b1 n u b3 p => cases u with
+      | none => simp [AmountLit.print]
+      | some bu => obtain ⟨b2, u⟩ := bu; simp [AmountLit.print]
+    | implicit n u =>
+      have hn : n.print ≠ [] := by
+        cases u with
+        | none => exact (numberAt_of_wf n _ h.1 h.2.1).ne_nil
+        | some sup => obtain ⟨sp, u, p⟩ := sup; exact (numberAt_of_wf n _ h.1 h.2.1).ne_nil
+      cases u with
+      | none => simpa [AmountLit.print] using hn
+      | some sup => obtain ⟨sp, u, p⟩ := sup; simp [AmountLit.print, hn]
+  have hi' : i ≤ t.size := by
+    rcases hi with h1 | h1
+    · exact h1
+    · simp at h1; exact absurd h1.1 htxt
+  -- the text is `pre ++ a.print ++ rest` with `pre` of length `i`
+  have hpre : (t.toList.take i).length = i := by simp [hi']
+  have hteq : t = (t.toList.take i ++ a.print ++ rest).toArray := by
+    apply Array.ext'
+    simp only [List.append_assoc]
+    rw [← ht, List.take_append_drop]
+  have key : ∀ (p : P AAmount), p (t.toList.take i ++ a.print ++ rest).toArray ⟨(t.toList.take i).length, z⟩
+      = some (a.value (t.toList.take i).length, ⟨(t.toList.take i ++ a.print).length, z⟩) →
+      p t ⟨i, z⟩ = some (a.value i, ⟨i + a.print.length, z⟩) := by
+    intro p hp
+    rw [← hteq, hpre] at hp
+    rw [hp]; simp [hpre]
+  cases a with
+  | remainder w p =>
+    exact key amount (amount_of_proportion (proportion_roundtrip _ _ rest z h trivial))
+  | ofNumber n p =>
+    exact key amount (amount_of_proportion (proportion_roundtrip _ _ rest z h trivial))
+  | percent n bl p =>
+    exact key amount (amount_of_proportion (proportion_roundtrip _ _ rest z h trivial))
+  | times n bl =>
+    exact key amount (amount_of_proportion (proportion_roundtrip _ _ rest z h trivial))
+  | explicit b1 n u b3 p =>
+    apply key amount
+    have he := explicitQuantity_roundtrip (t.toList.take i) b1 n u b3 p rest z h
+    refine amount_of_explicit (s := ((AmountLit.explicit b1 n u b3 p).print ++ rest).tail) ?_ he
+    cases u with
+    | none => simp [AmountLit.print]
+    | some bu => obtain ⟨b2, u⟩ := bu; simp [AmountLit.print]
+  | implicit n u =>
+    apply key amount
+    have hi := implicitQuantity_roundtrip (t.toList.take i) n u rest z h
+    cases u with
+    | none =>
+      obtain ⟨hn, hnf, _⟩ := h
+      rw [amount_of_implicit (numberAt_of_wf n rest hn hnf) (by rw [← blanksWordAt_eq]; exact hr.1) hr.2 z
+        (by simp [AmountLit.print])]
+      exact hi
+    | some sup =>
+      obtain ⟨sp, u, p⟩ := sup
+      obtain ⟨hn, hnf, hsp, hu, hp, hpf, hrest⟩ := h
+      obtain ⟨hmem, hU⟩ := unitText_of_wf u hu
+      have hreach := implicit_reached hmem hU hsp ((prepAt_of_wf p rest hp hpf).head_not_word hrest)
+      have e : sp ++ u.print ++ (p.print ++ rest) = sp ++ u.print ++ p.print ++ rest := by simp
+      rw [e] at hreach
+      rw [amount_of_implicit (numberAt_of_wf n _ hn hnf) hreach.1 hreach.2 z
+        (by simp [AmountLit.print])]
+      exact hi
+
+theorem amount_roundtrip (pre : Str) (a : AmountLit) (rest : Str) (z : Bool) (h : a.Ok rest) (hr : a.Reached rest) :
+    (proportion <|> explicitQuantity <|> implicitQuantity) (pre ++ a.print ++ rest).toArray ⟨pre.length, z⟩
+      = some (a.value pre.length, ⟨(pre ++ a.print).length, z⟩) := by
+  have := amountAt_of_ok a rest h hr (pre ++ a.print ++ rest).toArray pre.length z (by simp)
+  change amount _ _ = _
+  simpa using this
+
+/-- a reference as written: an optional amount with the blanks after it, and the name -/
+structure RefLit where
+  amount : Option (AmountLit × Str)
+  name : StringLit
+
+namespace RefLit
+
+def print (r : RefLit) : Str :=
+  match r.amount with
+  | none => r.name.print
+  | some (a, bl) => a.print ++ bl ++ r.name.print
+
+/-- the expected `ast.Reference` for the reference written at offset `off` -/
+def value (off : Nat) (r : RefLit) : AExpr :=
+  match r.amount with
+  | none => .ref (r.name.value off) none
+  | some (a, bl) => .ref (r.name.value (off + a.print.length + bl.length)) (some (a.value off))
+
+/-- permitted spellings.  Without an amount the name must not itself start like an amount: not with
+    a remainder word, not with a digit, not with `{ number` (such names have to be quoted). -/
+def Ok (rest : Str) (r : RefLit) : Prop :=
+  match r.amount with
+  | none =>
+    r.name.Ok false rest ∧ remainderWordAt (r.name.print ++ rest) = false
+      ∧ NextNot isDigit (r.name.print ++ rest)
+      ∧ ∀ s', r.name.print ++ rest = '{' :: s' → NextNot isDigit (s'.dropWhile isHsp)
+  | some (a, bl) =>
+    a.Ok (bl ++ r.name.print ++ rest) ∧ a.Reached (bl ++ r.name.print ++ rest) ∧ IsBlanks bl
+      ∧ r.name.Ok false rest
+
+end RefLit
+
+/-- **references are recovered verbatim**: optional amount, blanks, name -/
+theorem reference_roundtrip (pre : Str) (r : RefLit) (rest : Str) (z : Bool) (h : r.Ok rest) :
+    reference (pre ++ r.print ++ rest).toArray ⟨pre.length, z⟩
+      = some (r.value pre.length, ⟨(pre ++ r.print).length, z⟩) := by
+  obtain ⟨amt, name⟩ := r
+  cases amt with
+  | none =>
+    obtain ⟨hn, hrem, hdig, hbr⟩ := h
+    have hrem' : remainderLen (name.print ++ rest) = none := by
+      have := remainderWordAt_eq (name.print ++ rest)
+      rw [hrem] at this
+      cases hl : remainderLen (name.print ++ rest) with
+      | none => rfl
+      | some k => rw [hl] at this; cases this
+    have := reference_plain (stringAt_of_ok false name rest hn) hrem' hdig hbr z
+      (t := (pre ++ name.print ++ rest).toArray) (i := pre.length) (by simp)
+    simpa [RefLit.print, RefLit.value] using this
+  | some abl =>
+    obtain ⟨a, bl⟩ := abl
+    obtain ⟨ha, hr, hbl, hn⟩ := h
+    have := reference_amount (amountAt_of_ok a _ ha hr) hbl (stringAt_of_ok false name rest hn)
+      (StringLit.head_not_blank hn rest) z
+      (t := (pre ++ (a.print ++ bl ++ name.print) ++ rest).toArray) (i := pre.length) (by simp)
+    simpa [RefLit.print, RefLit.value] using this
+
+/-! ### non-vacuity -/
+
+-- the model on concrete inputs
+example : implicitQuantity "1 1/2 Table  Spoons of the sugar".toList.toArray ⟨0, false⟩
+    = some (.qty 0 ⟨(1 : Rat) + mkRat 1 2, .frac⟩ (some [.sub 6 "Table  Spoons".toList]) [' '] " of the".toList,
+            ⟨26, false⟩) := by decide +kernel
+example : proportion "Left over OF flour".toList.toArray ⟨0, false⟩
+    = some (.prop 0 none false (some "Left over".toList) " OF".toList, ⟨12, false⟩) := by decide +kernel
+example : (proportion <|> explicitQuantity <|> implicitQuantity) "2 oz flour".toList.toArray ⟨0, false⟩
+    = some (.qty 0 ⟨2, .int⟩ (some [.sub 2 "oz".toList]) [' '] [], ⟨4, false⟩) := by decide +kernel
+/-- "of" wins over a unit: `2 of …` is a proportion -/
+example : (proportion <|> explicitQuantity <|> implicitQuantity) "2 of flour".toList.toArray ⟨0, false⟩
+    = some (.prop 0 (some ⟨2, .int⟩) false none " of".toList, ⟨4, false⟩) := by decide +kernel
+example : explicitQuantity "{ 2 'big ones' } of the eggs".toList.toArray ⟨0, false⟩
+    = some (.qty 0 ⟨2, .int⟩ (some [.sub 4 "big ones".toList]) [' '] " of the".toList, ⟨23, false⟩) := by
+  decide +kernel
+
+/-- "100g", followed by " flour", satisfies the hypotheses of the round-trip theorems -/
+theorem amountOk_example :
+    (AmountLit.implicit (.int "100".toList) (some ([], ⟨["g"], [[false]], []⟩, .none))).Ok " flour".toList := by
+  refine ⟨⟨by decide, by decide⟩, ⟨by decide, ?_⟩, by simp [IsBlanks], ⟨by decide, by simp [UnitSpellingOk]⟩, trivial,
+    (by decide +kernel : blanksWordAt "of".toList " flour".toList = false), ?_⟩
+  · intro c hc
+    have : c = 'g' := by
+      simp [UnitLit.print, printUnit, caseWord, PrepLit.print] at hc
+      simpa [isHsp] using hc.symm
+    subst this; decide
+  · intro c hc; simp at hc; subst hc; decide +kernel
+
+example (pre : Str) (z : Bool) :
+    (proportion <|> explicitQuantity <|> implicitQuantity) (pre ++ "100g".toList ++ " flour".toList).toArray ⟨pre.length, z⟩
+      = some (.qty pre.length ⟨100, .int⟩ (some [.sub (pre.length + 3) ['g']]) [] [], ⟨(pre ++ "100g".toList).length, z⟩) := by
+  have := amount_roundtrip pre _ _ z amountOk_example trivial
+  simpa [AmountLit.print, AmountLit.value, NumLit.print, NumLit.value, UnitLit.print, printUnit, caseWord,
+    PrepLit.print, digitsValue] using this
+
+/-- "2 eggs" before a newline satisfies the hypotheses of `reference_roundtrip` -/
+theorem refOk_example :
+    (RefLit.mk (some (.implicit (.int ['2']) none, [' '])) ⟨.naked "eggs".toList, []⟩).Ok ['\n'] := by
+  have e : [' '] ++ StringLit.print ⟨.naked "eggs".toList, []⟩ ++ ['\n'] = " eggs\n".toList := by decide +kernel
+  have hd : (" eggs\n".toList).dropWhile isHsp = "eggs\n".toList := by decide +kernel
+  have h1 : unitNameAt "eggs\n".toList = false := by decide +kernel
+  have h2 : blanksWordAt "of".toList " eggs\n".toList = false := by decide +kernel
+  have h3 : IsNaked "eggs".toList := by unfold IsNaked; decide +kernel
+  have hc : ∀ c, ("eggs\n".toList).head? = some c → isDigit c = false ∧ c ≠ '/' ∧ c ≠ '%' ∧ c ≠ '*' := by
+    intro c hc; cases hc; decide
+  show (AmountLit.implicit (.int ['2']) none).Ok _ ∧ (AmountLit.implicit (.int ['2']) none).Reached _ ∧ _ ∧ _
+  rw [e]
+  refine ⟨⟨⟨by decide, by decide⟩, ⟨by decide, ?_⟩, ?_⟩, ⟨h2, ?_⟩, by simp [IsBlanks, isHsp], ?_⟩
+  · rw [hd]; exact fun c h => ⟨(hc c h).1, (hc c h).2.1⟩
+  · rw [hd]; exact h1
+  · rw [hd]; exact fun c h => ⟨(hc c h).2.2.1, (hc c h).2.2.2⟩
+  · exact ⟨h3, ⟨[], ['\n'], rfl, by simp, by intro c hc; cases hc; exact Or.inr (Or.inl rfl)⟩⟩
+
+example (pre : Str) (z : Bool) :
+    reference (pre ++ "2 eggs".toList ++ ['\n']).toArray ⟨pre.length, z⟩
+      = some (.ref [.sub (pre.length + 2) "eggs".toList] (some (.qty pre.length ⟨2, .int⟩ none [] [])),
+              ⟨(pre ++ "2 eggs".toList).length, z⟩) := by
+  have := reference_roundtrip pre _ _ z refOk_example
+  simpa [RefLit.print, RefLit.value, AmountLit.print, AmountLit.value, NumLit.print, NumLit.value,
+    StringLit.print, StringLit.value, printString, printMore, stringValue, moreValue, StrAtom.print,
+    StrAtom.value, digitsValue] using this
+
+/-! # C06, layer 5: ends of lines, assignment signs, expressions and statements.
+
+    Besides the lexical round trips (`eol`, `eof`, `assign`) this file specifies the *flat* recipes —
+    statements `outputs := name, action, action …` whose names, actions and outputs are arbitrary
+    strings (sequences of naked, quoted and bracketed atoms) — and proves that `parse` recovers every
+    such recipe verbatim.  Steps `name(arg, …)`, parentheses and amounts are covered by the
+    lemma-level abstractions of `Lemmas/ParserExprs.lean` (`exprAt_step`, `exprAt_paren`,
+    `referenceAt_amount`, `stmtAt_plain`, `stmtAt_target`, `parse_ok`). -/
+
+/-! ## Ends of lines, the end of the text, assignment signs -/
+
+/-- an end of line as written -/
+inductive EolLit where
+  /-- blanks, one newline character, then any white space (further empty lines, indentation) -/
+  | newline (bl : Str) (nl : Char) (ws : Str)
+  /-- blanks, at the end of the text -/
+  | eof (bl : Str)
+
+namespace EolLit
+
+def print : EolLit → Str
+  | newline bl nl ws => bl ++ nl :: ws
+  | eof bl => bl
+
+def WF : EolLit → Prop
+  | newline bl nl ws => IsBlanks bl ∧ isNewline nl = true ∧ IsSpaces ws
+  | eof bl => IsBlanks bl
+
+/-- after a newline-end-of-line no further white space (it would belong to it); after an
+    end-of-text-end-of-line nothing at all -/
+def Follow : EolLit → Str → Prop
+  | newline _ _ _, rest => NextNot isReSpace rest
+  | eof _, rest => rest = []
+
+end EolLit
+
+theorem eolAt_of_wf (e : EolLit) (rest : Str) (h : e.WF) (hf : e.Follow rest) : EolAt e.print rest := by
+  cases e with
+  | newline bl nl ws => exact eolAt_newline h.1 h.2.1 h.2.2 hf
+  | eof bl => cases hf; exact eolAt_eof h
+
+/-- **ends of lines are recognised** -/
+theorem eol_roundtrip (pre : Str) (e : EolLit) (rest : Str) (z : Bool) (h : e.WF) (hf : e.Follow rest) :
+    eol (pre ++ e.print ++ rest).toArray ⟨pre.length, z⟩ = some ((), ⟨(pre ++ e.print).length, z⟩) := by
+  have := eolAt_of_wf e rest h hf (pre ++ e.print ++ rest).toArray pre.length z (by simp)
+  simpa using this
+
+/-- the end of the text is recognised, and only it -/
+theorem eof_roundtrip (pre : Str) (z : Bool) : eof pre.toArray ⟨pre.length, z⟩ = some ((), ⟨pre.length, z⟩) :=
+  eof_of_nil z (by simp)
+
+theorem eof_rejects (pre : Str) (c : Char) (rest : Str) (z : Bool) :
+    eof (pre ++ c :: rest).toArray ⟨pre.length, z⟩ = none :=
+  eof_fail_of_cons (c := c) (s := rest) z (by simp)
+
+/-- the assignment sign: `:=` for a named sub-recipe, `=` otherwise -/
+def printAssign : Bool → Str
+  | true => [':', '=']
+  | false => ['=']
+
+theorem printAssign_eq (named : Bool) : printAssign named = assignTxt named := by cases named <;> rfl
+
+/-- **assignment signs are recognised** -/
+theorem assign_roundtrip (pre : Str) (named : Bool) (rest : Str) (z : Bool) :
+    assign (pre ++ printAssign named ++ rest).toArray ⟨pre.length, z⟩
+      = some (named, ⟨(pre ++ printAssign named).length, z⟩) := by
+  have := assign_run (named := named) (t := (pre ++ printAssign named ++ rest).toArray) (i := pre.length)
+    (rest := rest) z (by simp [printAssign_eq])
+  simpa [printAssign_eq] using this
+
+/-- nothing else is an assignment sign -/
+theorem assign_rejects (pre rest : Str) (z : Bool) (h1 : rest.head? ≠ some '=')
+    (h2 : ∀ r, rest = ':' :: r → r.head? ≠ some '=') : assign (pre ++ rest).toArray ⟨pre.length, z⟩ = none :=
+  assign_fail z (by simp) h1 h2
+
+example : eol "a \t\n\n  b".toList.toArray ⟨1, false⟩ = some ((), ⟨7, false⟩) := by decide +kernel
+example : eol "a \t".toList.toArray ⟨1, true⟩ = some ((), ⟨3, true⟩) := by decide +kernel
+example : eol "a b".toList.toArray ⟨1, false⟩ = none := by decide +kernel
+example : assign "x := y".toList.toArray ⟨2, false⟩ = some (true, ⟨4, false⟩) := by decide +kernel
+example : assign "x : y".toList.toArray ⟨2, false⟩ = none := by decide +kernel
+example : (EolLit.newline [' ', '\t'] '\n' ['\n', ' ', ' ']).WF ∧ (EolLit.newline [' ', '\t'] '\n' ['\n', ' ', ' ']).Follow ['b'] := by
+  refine ⟨⟨by unfold IsBlanks; decide, by decide, by unfold IsSpaces; decide⟩, ?_⟩
+  intro c hc; cases hc; decide
+
+/-! ## `expr` on a reference -/
+
+/-- **where no `(` stands in the rest of the text, an expression is a reference**: `expr` tries
+    `step` first, and `step` starts by reading a `string` — which may tokenise the text quite
+    differently from `reference` (see the example below) — but it needs a `(` to succeed -/
+theorem expr_reference_roundtrip (pre rest : Str) (z : Bool) (fuel : Nat) (h : ∀ c ∈ rest, c ≠ '(') :
+    expr (fuel + 1) (pre ++ rest).toArray ⟨pre.length, z⟩ = reference (pre ++ rest).toArray ⟨pre.length, z⟩ :=
+  expr_eq_reference_of_text (by simp) h
+
+/-- the hypothesis is needed: on `{2 '}'} flour, '(y)` the rule `reference` reads the quantity
+    `{2 '}'}` of `flour` (13 characters), but `expr` reads a step whose name runs across the comma -/
+example : (reference "{2 '}'} flour, '(y)".toList.toArray ⟨0, false⟩).map (·.2.pos) = some 13
+    ∧ (expr 20 "{2 '}'} flour, '(y)".toList.toArray ⟨0, false⟩).map (·.2.pos) = some 19 := by
+  constructor <;> decide +kernel
+
+/-! ## Flat recipes -/
+
+/-- one further item of a comma separated list: blanks, `,`, blanks, a string -/
+structure CommaLit where
+  b1 : Str
+  b2 : Str
+  s : StringLit
+
+def CommaLit.print (c : CommaLit) : Str := c.b1 ++ ',' :: c.b2 ++ c.s.print
+
+def printCommas : List CommaLit → Str
+  | [] => []
+  | c :: cs => c.print ++ printCommas cs
+
+def CommasOk (rest : Str) : List CommaLit → Prop
+  | [] => True
+  | c :: cs => IsBlanks c.b1 ∧ IsBlanks c.b2 ∧ c.s.Ok false (printCommas cs ++ rest) ∧ CommasOk rest cs
+
+/-- the values of the items written from offset `off` on -/
+def commaValues (off : Nat) : List CommaLit → List AString
+  | [] => []
+  | c :: cs => c.s.value (off + c.b1.length + 1 + c.b2.length) :: commaValues (off + c.print.length) cs
+
+/-- the target of a statement: `output (, output)* blanks (:= | =) blanks` -/
+structure Target where
+  output : StringLit
+  more : List CommaLit
+  b1 : Str
+  named : Bool
+  b2 : Str
+
+def Target.print (g : Target) : Str :=
+  g.output.print ++ (printCommas g.more ++ (g.b1 ++ (printAssign g.named ++ g.b2)))
+
+/-- a flat statement: an optional target, a name, actions applied to it from left to right, and
+    the end of the line -/
+structure FlatStmt where
+  target : Option Target
+  name : StringLit
+  actions : List CommaLit
+  eol : EolLit
+
+namespace FlatStmt
+
+def targetTxt (s : FlatStmt) : Str :=
+  match s.target with
+  | some g => g.print
+  | none => []
+
+def print (s : FlatStmt) : Str := s.targetTxt ++ ((s.name.print ++ printCommas s.actions) ++ s.eol.print)
+
+/-- the statement written at offset `off`: `name, a1, a2` is `a2(a1(name))` -/
+def value (off : Nat) (s : FlatStmt) : AStmt :=
+  let o := off + s.targetTxt.length
+  { expr := (commaValues (o + s.name.print.length) s.actions).foldl (fun e action => .step action [e])
+      (.ref (s.name.value o) none)
+    outputs := s.target.map fun g => g.output.value off :: commaValues (off + g.output.print.length) g.more
+    named := (s.target.map (·.named)).getD false }
+
+end FlatStmt
+
+/-- the text does not start like an amount: no remainder word, no digit, no `{ number` -/
+def NotAmountStart (s : Str) : Prop :=
+  remainderLen s = none ∧ (∀ c, s.head? = some c → isDigit c = false)
+  ∧ ∀ s', s = '{' :: s' → ∀ c, (s'.dropWhile isHsp).head? = some c → isDigit c = false
+
+/-- admissible flat statements in front of `rest`: every string is admissible where it stands,
+    blanks are blanks, the name does not start like an amount, and the line ends properly -/
+def FlatStmt.Ok (rest : Str) (s : FlatStmt) : Prop :=
+  s.name.Ok false (printCommas s.actions ++ (s.eol.print ++ rest))
+  ∧ NotAmountStart (s.name.print ++ (printCommas s.actions ++ (s.eol.print ++ rest)))
+  ∧ CommasOk (s.eol.print ++ rest) s.actions
+  ∧ s.eol.WF ∧ s.eol.Follow rest
+  ∧ match s.target with
+    | none => True
+    | some g =>
+      g.output.Ok false (printCommas g.more ++ (g.b1 ++ (printAssign g.named ++ (g.b2 ++
+        ((s.name.print ++ printCommas s.actions) ++ (s.eol.print ++ rest))))))
+      ∧ CommasOk (g.b1 ++ (printAssign g.named ++ (g.b2 ++
+        ((s.name.print ++ printCommas s.actions) ++ (s.eol.print ++ rest))))) g.more
+      ∧ IsBlanks g.b1 ∧ IsBlanks g.b2
+
+def printFlat : List FlatStmt → Str
+  | [] => []
+  | s :: ss => s.print ++ printFlat ss
+
+def FlatOk : List FlatStmt → Prop
+  | [] => True
+  | s :: ss => s.Ok (printFlat ss) ∧ FlatOk ss
+
+def flatValues (off : Nat) : List FlatStmt → List AStmt
+  | [] => []
+  | s :: ss => s.value off :: flatValues (off + s.print.length) ss
+
+/-! ### bridges to the parser lemmas -/
+
+def CommaLit.toItem (c : CommaLit) : CommaItem := ⟨c.b1, c.b2, c.s.print, fun i => c.s.value i⟩
+
+theorem printCommaItems_map (cs : List CommaLit) : printCommaItems (cs.map CommaLit.toItem) = printCommas cs := by
+  induction cs with
+  | nil => rfl
+  | cons c cs ih => simp only [List.map_cons, printCommaItems, printCommas, ih]; rfl
+
+theorem commaItemVals_map (cs : List CommaLit) : ∀ off, commaItemVals off (cs.map CommaLit.toItem) = commaValues off cs := by
+  induction cs with
+  | nil => intro off; rfl
+  | cons c cs ih => intro off; simp only [List.map_cons, commaItemVals, commaValues, ih]; rfl
+
+theorem commaItemsOk_map (rest : Str) : ∀ cs : List CommaLit, CommasOk rest cs → CommaItemsOk rest (cs.map CommaLit.toItem)
+  | [], _ => trivial
+  | c :: cs, h => ⟨h.1, h.2.1, by
+      rw [printCommaItems_map]; exact stringAt_of_ok false c.s _ h.2.2.1, commaItemsOk_map rest cs h.2.2.2⟩
+
+/-- an end of line starts, after its blanks, with a newline or is the end of the text -/
+theorem eol_split (e : EolLit) (rest : Str) (h : e.WF) (hf : e.Follow rest) :
+    ∃ bl r, e.print ++ rest = bl ++ r ∧ IsBlanks bl ∧ ∀ c, r.head? = some c → isNewline c = true := by
+  cases e with
+  | newline bl nl ws =>
+    exact ⟨bl, nl :: ws ++ rest, by simp [EolLit.print], h.1, fun c hc => by
+      simp only [List.cons_append, List.head?_cons, Option.some.injEq] at hc; subst hc; exact h.2.1⟩
+  | eof bl =>
+    cases hf
+    exact ⟨bl, [], by simp [EolLit.print], h, by simp⟩
+
+theorem noAssign_of_eol (e : EolLit) (rest : Str) (h : e.WF) (hf : e.Follow rest) :
+    NoAssign (e.print ++ rest) := by
+  obtain ⟨bl, r, e', hbl, hr⟩ := eol_split e rest h hf
+  refine ⟨bl, r, e', hbl, fun c hc => ?_, fun r' er => ?_⟩
+  · have hn := hr c hc
+    refine ⟨isHsp_of_isNewline hn, ?_, ?_⟩ <;> (rintro rfl; exact absurd hn (by decide))
+  · subst er; exact absurd (hr ':' rfl) (by decide)
+
+/-- after the name of a flat statement comes — after blanks — a comma or a newline, never a `(` -/
+theorem noParen_after_name (cs : List CommaLit) (e : EolLit) (rest : Str) (hcs : CommasOk (e.print ++ rest) cs)
+    (h : e.WF) (hf : e.Follow rest) :
+    ∃ bl r, printCommas cs ++ (e.print ++ rest) = bl ++ r ∧ IsBlanks bl
+      ∧ ∀ c, r.head? = some c → isHsp c = false ∧ c ≠ '(' := by
+  cases cs with
+  | nil =>
+    obtain ⟨bl, r, e', hbl, hr⟩ := eol_split e rest h hf
+    refine ⟨bl, r, by simpa [printCommas] using e', hbl, fun c hc => ?_⟩
+    have hn := hr c hc
+    exact ⟨isHsp_of_isNewline hn, by rintro rfl; exact absurd hn (by decide)⟩
+  | cons c cs =>
+    refine ⟨c.b1, ',' :: (c.b2 ++ c.s.print ++ (printCommas cs ++ (e.print ++ rest))),
+      by simp [printCommas, CommaLit.print], hcs.1, fun x hx => ?_⟩
+    simp only [List.head?_cons, Option.some.injEq] at hx; subst hx
+    exact ⟨by decide, by decide⟩
+
+theorem StringLit.print_ne_nil {s : StringLit} {rest : Str} (h : s.Ok false rest) : s.print ≠ [] :=
+  (stringAt_of_ok false s rest h).ne_nil
+
+/-- every admissible flat statement is a statement -/
+theorem stmtAt_of_ok (s : FlatStmt) (rest : Str) (h : s.Ok rest) :
+    StmtAt s.print rest (fun i => s.value i) := by
+  obtain ⟨hname, hna, hacts, hwf, hfollow, htarget⟩ := h
+  have hn := stringAt_of_ok false s.name _ hname
+  have hitems := commaItemsOk_map _ _ hacts
+  have hnoassign := noAssign_of_eol s.eol rest hwf hfollow
+  obtain ⟨bl, r, esplit, hbl, hr⟩ := noParen_after_name s.actions s.eol rest hacts hwf hfollow
+  have href := referenceAt_plain hn hna.1 hna.2.1 hna.2.2
+  have hexpr : ExprAt 1 s.name.print (printCommaItems (s.actions.map CommaLit.toItem) ++ (s.eol.print ++ rest))
+      (fun i => .ref (s.name.value i) none) := by
+    rw [printCommaItems_map]
+    exact exprAt_reference_of_string href hn rfl esplit hbl hr
+  have hltr := ltrAt_of hexpr hitems hnoassign.noComma
+  have heol := eolAt_of_wf s.eol rest hwf hfollow
+  have hd : 1 ≤ (s.name.print ++ printCommaItems (s.actions.map CommaLit.toItem)).length + 1 := by omega
+  cases ht : s.target with
+  | none =>
+    have hno : NoTargetAt ((s.name.print ++ printCommaItems (s.actions.map CommaLit.toItem)) ++ (s.eol.print ++ rest)) := by
+      have := noTargetAt_of_outputs (by rw [printCommaItems_map]; exact hn) hitems hnoassign
+      simpa [List.append_assoc] using this
+    have := stmtAt_plain hltr heol hd hno
+    simpa [FlatStmt.print, FlatStmt.targetTxt, FlatStmt.value, ht, printCommaItems_map, commaItemVals_map] using this
+  | some g =>
+    rw [ht] at htarget
+    obtain ⟨hout, hmore, hb1, hb2⟩ := htarget
+    have ho := stringAt_of_ok false g.output _ hout
+    have hmoreItems := commaItemsOk_map _ _ hmore
+    have := stmtAt_target (otxt := g.output.print) (outs := g.more.map CommaLit.toItem) (b1 := g.b1) (b2 := g.b2)
+      (named := g.named) (ltxt := s.name.print ++ printCommaItems (s.actions.map CommaLit.toItem))
+      (eoltxt := s.eol.print) (rest := rest)
+      (by simpa [printCommaItems_map, printAssign_eq] using ho)
+      (by simpa [printCommaItems_map, printAssign_eq] using hmoreItems) hb1 hb2 hltr heol hd
+    simpa [FlatStmt.print, FlatStmt.targetTxt, FlatStmt.value, ht, Target.print, Parser.targetTxt,
+      printCommaItems_map, commaItemVals_map, printAssign_eq] using this
+
+theorem FlatStmt.print_ne_nil {s : FlatStmt} {rest : Str} (h : s.Ok rest) : s.print ≠ [] := by
+  have := StringLit.print_ne_nil h.1
+  intro e
+  have := congrArg List.length e
+  simp only [FlatStmt.print, List.length_append, List.length_nil] at this
+  have : 0 < s.name.print.length := List.length_pos_iff.mpr ‹s.name.print ≠ []›
+  omega
+
+def FlatStmt.toItem (s : FlatStmt) : StmtItem := ⟨s.print, fun i => s.value i⟩
+
+theorem printStmts_map (ss : List FlatStmt) : printStmts (ss.map FlatStmt.toItem) = printFlat ss := by
+  induction ss with
+  | nil => rfl
+  | cons s ss ih => simp only [List.map_cons, printStmts, printFlat, ih]; rfl
+
+theorem stmtVals_map (ss : List FlatStmt) : ∀ off, stmtVals off (ss.map FlatStmt.toItem) = flatValues off ss := by
+  induction ss with
+  | nil => intro off; rfl
+  | cons s ss ih => intro off; simp only [List.map_cons, stmtVals, flatValues, ih]; rfl
+
+theorem stmtsOk_map : ∀ ss : List FlatStmt, FlatOk ss → StmtsOk (ss.map FlatStmt.toItem)
+  | [], _ => trivial
+  | s :: ss, h => ⟨FlatStmt.print_ne_nil h.1, by
+      rw [printStmts_map]; exact stmtAt_of_ok s _ h.1, stmtsOk_map ss h.2⟩
+
+/-- **flat statements are recovered verbatim** -/
+theorem flatStmt_roundtrip (pre : Str) (s : FlatStmt) (rest : Str) (z : Bool) (h : s.Ok rest) :
+    stmt (pre ++ s.print ++ rest).toArray ⟨pre.length, z⟩
+      = some (s.value pre.length, ⟨(pre ++ s.print).length, z⟩) := by
+  have := stmtAt_of_ok s rest h (pre ++ s.print ++ rest).toArray pre.length z (by simp)
+  simpa using this
+
+/-- **`parse` recovers every flat recipe**: optional white space, then one or more admissible flat
+    statements up to the end of the text -/
+theorem flat_parse_roundtrip (ws0 : Str) (s : FlatStmt) (ss : List FlatStmt) (hws : IsSpaces ws0)
+    (hok : FlatOk (s :: ss)) :
+    parse (ws0 ++ printFlat (s :: ss)) = .ok (flatValues ws0.length (s :: ss)) := by
+  have := parse_ok (ws0 := ws0) (a := s.toItem) (as := ss.map FlatStmt.toItem) hws (stmtsOk_map (s :: ss) hok)
+  rw [← List.map_cons, printStmts_map, stmtVals_map] at this
+  exact this
+
+/-! ### examples -/
+
+/-- a naked word is an admissible string in front of blanks and a character that ends strings -/
+theorem nakedLit_ok (txt : Str) (h : IsNaked txt) (rest ws r : Str) (e : rest = ws ++ r)
+    (hws : ∀ c ∈ ws, isReSpace c = true ∧ isNewline c = false)
+    (hr : ∀ c, r.head? = some c → EndsString false c) : (StringLit.mk (.naked txt) []).Ok false rest := by
+  refine ⟨h, ?_⟩
+  show LastFollow false (.naked txt) rest
+  have : LastFollow false (.naked txt) rest = NakedFollow false rest := if_pos rfl
+  rw [this]
+  exact ⟨ws, r, e, hws, hr⟩
+
+def exStmt1 : FlatStmt :=
+  { target := none, name := ⟨.naked ['a'], []⟩, actions := [⟨[], [' '], ⟨.naked ['b'], []⟩⟩],
+    eol := .newline [] '\n' [] }
+
+def exStmt2 : FlatStmt :=
+  { target := some ⟨⟨.naked ['c'], []⟩, [], [' '], false, [' ']⟩, name := ⟨.naked ['a'], []⟩, actions := [],
+    eol := .newline [] '\n' [] }
+
+example : printFlat [exStmt1, exStmt2] = "a, b\nc = a\n".toList := by decide +kernel
+
+theorem exStmt2_ok : exStmt2.Ok [] := by
+  refine ⟨nakedLit_ok _ ⟨by decide, by decide, by decide, by decide⟩ _ [] "\n".toList (by decide) (by simp) ?_, ⟨by decide +kernel, by decide, ?_⟩,
+    trivial, ⟨by unfold IsBlanks; decide, by decide, by unfold IsSpaces; decide⟩, ?_,
+    nakedLit_ok _ ⟨by decide, by decide, by decide, by decide⟩ _ [' '] "= a\n".toList (by decide) (by decide) ?_, trivial,
+    by unfold IsBlanks; decide, by unfold IsBlanks; decide⟩
+  · intro c hc; cases hc; exact Or.inr (Or.inl (by decide))
+  · intro s' e; cases e
+  · intro c hc; cases hc
+  · intro c hc; cases hc; exact Or.inl (by decide)
+
+theorem exStmt1_ok : exStmt1.Ok (printFlat [exStmt2]) := by
+  refine ⟨nakedLit_ok _ ⟨by decide, by decide, by decide, by decide⟩ _ [] ", b\nc = a\n".toList (by decide +kernel) (by simp) ?_,
+    ⟨by decide +kernel, by decide, ?_⟩,
+    ⟨by unfold IsBlanks; decide, by unfold IsBlanks; decide,
+      nakedLit_ok _ ⟨by decide, by decide, by decide, by decide⟩ _ [] "\nc = a\n".toList (by decide +kernel) (by simp) ?_, trivial⟩,
+    ⟨by unfold IsBlanks; decide, by decide, by unfold IsSpaces; decide⟩, ?_, trivial⟩
+  · intro c hc; cases hc; exact Or.inl (by decide)
+  · intro s' e; cases e
+  · intro c hc; cases hc; exact Or.inr (Or.inl (by decide))
+  · intro c hc; cases hc; decide
+
+/-- `a, b` / `c = a`: two statements, the second with an output -/
+example : parse "a, b\nc = a\n".toList
+    = .ok [{ expr := .step [.sub 3 ['b']] [.ref [.sub 0 ['a']] none], outputs := none, named := false },
+           { expr := .ref [.sub 9 ['a']] none, outputs := some [[.sub 5 ['c']]], named := false }] :=
+  flat_parse_roundtrip [] exStmt1 [exStmt2] (by unfold IsSpaces; decide) ⟨exStmt1_ok, exStmt2_ok, trivial⟩
+
 end RG.C06
